@@ -219,69 +219,89 @@ def _call_name(node):
 
 
 def _locate(tree, cmp_tree=None):
+    """Tolerant front end of `_locate_strict`: a helper that cannot be found is `None` (the groups / ops that need it
+    then fail by name or fall back), the others are still found."""
+    H = {}
+    for role in ("expand", "identity", "reshape", "matmul", "rotation", "backbone", "matching", "sqeuclid"):
+        try:
+            H[role] = _locate_strict(tree, cmp_tree, role)
+        except Exception as e:  # noqa: BLE001
+            H[role] = None
+            _GEN_ERRORS.append(f"helper `{role}` not located: {e}")
+    return H
+
+
+def _locate_strict(tree, cmp_tree, role):
     """role -> current name of the module-private helpers of superimpose.py (and `_sq_euclidian` of compare.py), found by
     where they are CALLED from the public API; a rename of a private helper therefore changes nothing."""
     H = {}
-    init = _find_func(tree, "__init__", "AffineTransformation")
-    fs = {_call_name(st.value) for st in init.body if isinstance(st, ast.Assign) and isinstance(st.value, ast.Call)
-          and isinstance(st.targets[0], ast.Attribute) and len(st.value.args) == 2}
-    if len(fs) != 1:
-        raise ValueError("AffineTransformation.__init__ does not store its three arguments through one helper(arg, ndim)")
-    H["expand"] = fs.pop()
-    asm = _find_func(tree, "as_matrix", "AffineTransformation")
-    cand = {}
-    for n in ast.walk(asm):
-        if isinstance(n, ast.Call) and isinstance(n.func, ast.Name) and len(n.args) == 2 and isinstance(n.args[1], ast.Constant):
-            cand[n.func.id] = cand.get(n.func.id, 0) + 1
-    ident = [k for k, c in cand.items() if c == 3]
-    if len(ident) != 1:
-        raise ValueError("as_matrix does not build three helper(count, <literal size>) identity stacks")
-    H["identity"] = ident[0]
-    app = _find_func(tree, "apply", "AffineTransformation")
-    xs = [st.targets[0].id for st in app.body if isinstance(st, ast.Assign) and isinstance(st.targets[0], ast.Name)
-          and ast.unparse(st.value).replace(" ", "") == "coord(atoms)"]
-    if len(xs) != 1:
-        raise ValueError("apply does not start from coord(atoms)")
-    rs = [_call_name(st.value) for st in app.body if isinstance(st, ast.Assign) and isinstance(st.value, ast.Call)
-          and isinstance(st.value.func, ast.Name) and [ast.unparse(a) for a in st.value.args] == [xs[0]]
-          and isinstance(st.targets[0], ast.Name) and st.targets[0].id == xs[0]]
-    if len(rs) != 1:
-        raise ValueError("apply does not pass its coordinates through one reshape helper")
-    H["reshape"] = rs[0]
-    mm = [_call_name(n) for n in ast.walk(app) if isinstance(n, ast.Call) and isinstance(n.func, ast.Name) and len(n.args) == 2
-          and ast.unparse(n.args[0]) == "self.rotation"]
-    if len(mm) != 1:
-        raise ValueError("apply does not multiply through one helper(self.rotation, coordinates)")
-    H["matmul"] = mm[0]
-    sup = _find_func(tree, "superimpose")
-    ctor = [n for n in ast.walk(sup) if isinstance(n, ast.Call) and _call_name(n) == "AffineTransformation" and len(n.args) == 3]
-    if len(ctor) != 1 or not isinstance(ctor[0].args[1], ast.Name):
-        raise ValueError("superimpose does not build AffineTransformation(-c, rotation, t)")
-    rot = [_call_name(st.value) for st in sup.body if isinstance(st, ast.Assign) and isinstance(st.targets[0], ast.Name)
-           and st.targets[0].id == ctor[0].args[1].id and isinstance(st.value, ast.Call) and len(st.value.args) == 2]
-    if len(rot) != 1:
-        raise ValueError("superimpose: the rotation is not the result of one helper(fixed_centred, mobile_centred)")
-    H["rotation"] = rot[0]
-    hom = _find_func(tree, "superimpose_homologs")
-    bb, ma = set(), set()
-    for n in ast.walk(hom):
-        if isinstance(n, ast.Call) and isinstance(n.func, ast.Name):
-            a = [ast.unparse(x).replace(" ", "") for x in n.args]
-            if a in (["fixed"], ["mobile"]):
-                bb.add(n.func.id)
-            if len(a) == 5 and a[0].startswith("fixed[...,") and a[1].startswith("mobile[...,"):
-                ma.add(n.func.id)
-    if len(bb) != 1 or len(ma) != 1:
-        raise ValueError("superimpose_homologs: backbone-index / anchor-matching helpers not found")
-    H["backbone"], H["matching"] = bb.pop(), ma.pop()
-    if cmp_tree is not None:
-        r = [st for st in _find_func(cmp_tree, "rmsd").body if isinstance(st, ast.Return)]
-        sq = [n.func.id for n in ast.walk(r[0].value) if isinstance(n, ast.Call) and isinstance(n.func, ast.Name)
-              and [ast.unparse(x) for x in n.args] == ["reference", "subject"]] if r else []
-        if len(sq) != 1:
-            raise ValueError("rmsd does not reduce one helper(reference, subject)")
-        H["sqeuclid"] = sq[0]
-    return H
+    want = lambda r: role == r                                       # noqa: E731
+    if want("expand"):
+        init = _find_func(tree, "__init__", "AffineTransformation")
+        fs = {_call_name(st.value) for st in init.body if isinstance(st, ast.Assign) and isinstance(st.value, ast.Call)
+              and isinstance(st.targets[0], ast.Attribute) and len(st.value.args) == 2}
+        if len(fs) != 1:
+            raise ValueError("AffineTransformation.__init__ does not store its three arguments through one helper(arg, ndim)")
+        H["expand"] = fs.pop()
+    if want("identity"):
+        asm = _find_func(tree, "as_matrix", "AffineTransformation")
+        cand = {}
+        for n in ast.walk(asm):
+            if isinstance(n, ast.Call) and isinstance(n.func, ast.Name) and len(n.args) == 2 and isinstance(n.args[1], ast.Constant):
+                cand[n.func.id] = cand.get(n.func.id, 0) + 1
+        ident = [k for k, c in cand.items() if c >= 1]
+        if len(ident) != 1:
+            raise ValueError("as_matrix does not build its identity stacks through one helper(count, <literal size>)")
+        H["identity"] = ident[0]
+    if want("reshape") or want("matmul"):
+        app = _find_func(tree, "apply", "AffineTransformation")
+        xs = [st.targets[0].id for st in app.body if isinstance(st, ast.Assign) and isinstance(st.targets[0], ast.Name)
+              and ast.unparse(st.value).replace(" ", "") == "coord(atoms)"]
+        if len(xs) != 1:
+            raise ValueError("apply does not start from coord(atoms)")
+        rs = [_call_name(st.value) for st in app.body if isinstance(st, ast.Assign) and isinstance(st.value, ast.Call)
+              and isinstance(st.value.func, ast.Name) and [ast.unparse(a) for a in st.value.args] == [xs[0]]
+              and isinstance(st.targets[0], ast.Name) and st.targets[0].id == xs[0]]
+        if len(rs) != 1:
+            raise ValueError("apply does not pass its coordinates through one reshape helper")
+        H["reshape"] = rs[0]
+        mm = [_call_name(n) for n in ast.walk(app) if isinstance(n, ast.Call) and isinstance(n.func, ast.Name) and len(n.args) == 2
+              and ast.unparse(n.args[0]) == "self.rotation"]
+        if len(mm) != 1:
+            raise ValueError("apply does not multiply through one helper(self.rotation, coordinates)")
+        H["matmul"] = mm[0]
+    if want("rotation"):
+        sup = _find_func(tree, "superimpose")
+        ctor = [n for n in ast.walk(sup) if isinstance(n, ast.Call) and _call_name(n) == "AffineTransformation" and len(n.args) == 3]
+        if len(ctor) != 1 or not isinstance(ctor[0].args[1], ast.Name):
+            raise ValueError("superimpose does not build AffineTransformation(-c, rotation, t)")
+        rot = [_call_name(st.value) for st in sup.body if isinstance(st, ast.Assign) and isinstance(st.targets[0], ast.Name)
+               and st.targets[0].id == ctor[0].args[1].id and isinstance(st.value, ast.Call) and len(st.value.args) == 2]
+        if len(rot) != 1:
+            raise ValueError("superimpose: the rotation is not the result of one helper(fixed_centred, mobile_centred)")
+        H["rotation"] = rot[0]
+    if want("backbone") or want("matching"):
+        hom = _find_func(tree, "superimpose_homologs")
+        bb, ma = set(), set()
+        for n in ast.walk(hom):
+            if isinstance(n, ast.Call) and isinstance(n.func, ast.Name):
+                a = [ast.unparse(x).replace(" ", "") for x in n.args]
+                if a in (["fixed"], ["mobile"]):
+                    bb.add(n.func.id)
+                if len(a) == 5 and a[0].startswith("fixed[...,") and a[1].startswith("mobile[...,"):
+                    ma.add(n.func.id)
+        if len(bb) != 1 or len(ma) != 1:
+            raise ValueError("superimpose_homologs: backbone-index / anchor-matching helpers not found")
+        H["backbone"], H["matching"] = bb.pop(), ma.pop()
+    if want("sqeuclid"):
+        if cmp_tree is not None:
+            r = [st for st in _find_func(cmp_tree, "rmsd").body if isinstance(st, ast.Return)]
+            sq = [n.func.id for n in ast.walk(r[0].value) if isinstance(n, ast.Call) and isinstance(n.func, ast.Name)
+                  and [ast.unparse(x) for x in n.args] == ["reference", "subject"]] if r else []
+            if len(sq) != 1:
+                raise ValueError("rmsd does not reduce one helper(reference, subject)")
+            H["sqeuclid"] = sq[0]
+    return H[role]
 
 
 def _helpers():
@@ -295,8 +315,24 @@ def _helpers():
     return _HELPER_CACHE[key]
 
 
+_CONVENTIONAL = {"expand": "_expand_dims", "identity": "_3d_identity", "reshape": "_reshape_to_3d", "matmul": "_multi_matmul",
+                 "rotation": "_get_rotation_matrices", "backbone": "_get_backbone_anchor_indices",
+                 "matching": "_find_matching_anchors", "sqeuclid": "_sq_euclidian"}
+
+
+class HelperNotFound(Exception):
+    pass
+
+
+def _hname(role):
+    n = _helpers().get(role) or _CONVENTIONAL[role]
+    if not hasattr(_mod(), n):
+        raise HelperNotFound(f"private helper for `{role}` not found in the tree under test")
+    return n
+
+
 def _hp(role):
-    return getattr(_mod(), _helpers()[role])
+    return getattr(_mod(), _hname(role))
 
 
 def _alpha(f):
@@ -375,204 +411,210 @@ def gen_lean():
     cmp_tree = ast.parse(open(os.path.join(paths.SRC, "biotite/structure/compare.py")).read())
     H = _locate(tree, cmp_tree)
 
-    # --- _get_rotation_matrices: reflected_mask = det(v) * det(w) < 0 ; v[reflected_mask, :, -1] *= -1 ; matmul(v, w)
-    f = _find_func(tree, H["rotation"])
-    refl_cmp = refl_const = flip_axis = flip_factor = det_names = None
-    flip_target = None
-    mat_args = None
-    for node in ast.walk(f):
-        if isinstance(node, ast.Compare) and isinstance(node.left, ast.BinOp) and isinstance(node.left.op, ast.Mult):
-            c = node
-            sides = [c.left.left, c.left.right]
-            if all(isinstance(x, ast.Call) and ast.unparse(x.func) == "np.linalg.det" and len(x.args) == 1
-                   and isinstance(x.args[0], ast.Name) for x in sides):
-                refl_cmp = _cmp_name(c.ops[0])
-                refl_const = ast.literal_eval(c.comparators[0])
-                det_names = sorted(x.args[0].id for x in sides)
-        if isinstance(node, ast.AugAssign) and isinstance(node.target, ast.Subscript):
-            sl = node.target.slice
-            if isinstance(sl, ast.Tuple) and len(sl.elts) == 3:
-                flip_target = ast.unparse(node.target.value)
-                if not (isinstance(sl.elts[1], ast.Slice) and sl.elts[1].lower is None and sl.elts[1].upper is None):
-                    raise ValueError("flip does not address a whole column: " + ast.unparse(node.target))
-                flip_axis = ast.literal_eval(sl.elts[2])
-                if not isinstance(node.op, ast.Mult):
-                    raise ValueError("flip is not a multiplication")
-                flip_factor = ast.literal_eval(node.value)
-        # equivalent form: X[:, :, c] = np.where(mask[...], -col, col) with col = X[:, :, c]
-        if isinstance(node, ast.Assign) and isinstance(node.targets[0], ast.Subscript) and isinstance(node.value, ast.Call) \
-                and ast.unparse(node.value.func) == "np.where" and len(node.value.args) == 3:
-            tgt, (cnd, a1, a2) = node.targets[0], node.value.args
-            sl = tgt.slice
-            if isinstance(sl, ast.Tuple) and len(sl.elts) == 3 and all(isinstance(e, ast.Slice) and e.lower is None and e.upper is None for e in sl.elts[:2]) \
-                    and isinstance(a1, ast.UnaryOp) and isinstance(a1.op, ast.USub) and ast.unparse(a1.operand) == ast.unparse(a2):
-                src_col = [ast.unparse(st.value) for st in ast.walk(f) if isinstance(st, ast.Assign) and ast.unparse(st.targets[0]) == ast.unparse(a2)]
-                if src_col == [ast.unparse(tgt)] or ast.unparse(a2) == ast.unparse(tgt):
-                    flip_target = ast.unparse(tgt.value)
+    del _GEN_ERRORS[:]
+
+    def _p1():
+        # --- _get_rotation_matrices: reflected_mask = det(v) * det(w) < 0 ; v[reflected_mask, :, -1] *= -1 ; matmul(v, w)
+        f = _find_func(tree, H["rotation"])
+        refl_cmp = refl_const = flip_axis = flip_factor = det_names = None
+        flip_target = None
+        mat_args = None
+        for node in ast.walk(f):
+            if isinstance(node, ast.Compare) and isinstance(node.left, ast.BinOp) and isinstance(node.left.op, ast.Mult):
+                c = node
+                sides = [c.left.left, c.left.right]
+                if all(isinstance(x, ast.Call) and ast.unparse(x.func) == "np.linalg.det" and len(x.args) == 1
+                       and isinstance(x.args[0], ast.Name) for x in sides):
+                    refl_cmp = _cmp_name(c.ops[0])
+                    refl_const = ast.literal_eval(c.comparators[0])
+                    det_names = sorted(x.args[0].id for x in sides)
+            if isinstance(node, ast.AugAssign) and isinstance(node.target, ast.Subscript):
+                sl = node.target.slice
+                if isinstance(sl, ast.Tuple) and len(sl.elts) == 3:
+                    flip_target = ast.unparse(node.target.value)
+                    if not (isinstance(sl.elts[1], ast.Slice) and sl.elts[1].lower is None and sl.elts[1].upper is None):
+                        raise ValueError("flip does not address a whole column: " + ast.unparse(node.target))
                     flip_axis = ast.literal_eval(sl.elts[2])
-                    flip_factor = -1
-        if isinstance(node, ast.Call) and ast.unparse(node.func) in ("np.matmul",) and len(node.args) == 2:
-            mat_args = [ast.unparse(a) for a in node.args]
-    svd_names = None
-    for node in ast.walk(f):
-        if isinstance(node, ast.Assign) and isinstance(node.value, ast.Call) and ast.unparse(node.value.func) == "np.linalg.svd":
-            svd_names = [ast.unparse(e) for e in node.targets[0].elts]
-    if None in (refl_cmp, refl_const, flip_axis, flip_factor, flip_target, mat_args, svd_names, det_names):
-        raise ValueError("could not extract the reflection correction of _get_rotation_matrices")
-    # position of the flipped matrix in the svd result (0 = u) and the product order
-    if det_names != sorted([svd_names[0], svd_names[2]]) or flip_target not in svd_names or any(a not in svd_names for a in mat_args):
-        raise ValueError("reflection test / flip / product do not refer to the svd factors")
-    flip_pos = svd_names.index(flip_target)
-    prod = [svd_names.index(a) for a in mat_args]
+                    if not isinstance(node.op, ast.Mult):
+                        raise ValueError("flip is not a multiplication")
+                    flip_factor = ast.literal_eval(node.value)
+            # equivalent form: X[:, :, c] = np.where(mask[...], -col, col) with col = X[:, :, c]
+            if isinstance(node, ast.Assign) and isinstance(node.targets[0], ast.Subscript) and isinstance(node.value, ast.Call) \
+                    and ast.unparse(node.value.func) == "np.where" and len(node.value.args) == 3:
+                tgt, (cnd, a1, a2) = node.targets[0], node.value.args
+                sl = tgt.slice
+                if isinstance(sl, ast.Tuple) and len(sl.elts) == 3 and all(isinstance(e, ast.Slice) and e.lower is None and e.upper is None for e in sl.elts[:2]) \
+                        and isinstance(a1, ast.UnaryOp) and isinstance(a1.op, ast.USub) and ast.unparse(a1.operand) == ast.unparse(a2):
+                    src_col = [ast.unparse(st.value) for st in ast.walk(f) if isinstance(st, ast.Assign) and ast.unparse(st.targets[0]) == ast.unparse(a2)]
+                    if src_col == [ast.unparse(tgt)] or ast.unparse(a2) == ast.unparse(tgt):
+                        flip_target = ast.unparse(tgt.value)
+                        flip_axis = ast.literal_eval(sl.elts[2])
+                        flip_factor = -1
+            if isinstance(node, ast.Call) and ast.unparse(node.func) in ("np.matmul",) and len(node.args) == 2:
+                mat_args = [ast.unparse(a) for a in node.args]
+        svd_names = None
+        for node in ast.walk(f):
+            if isinstance(node, ast.Assign) and isinstance(node.value, ast.Call) and ast.unparse(node.value.func) == "np.linalg.svd":
+                svd_names = [ast.unparse(e) for e in node.targets[0].elts]
+        if None in (refl_cmp, refl_const, flip_axis, flip_factor, flip_target, mat_args, svd_names, det_names):
+            raise ValueError("could not extract the reflection correction of _get_rotation_matrices")
+        # position of the flipped matrix in the svd result (0 = u) and the product order
+        if det_names != sorted([svd_names[0], svd_names[2]]) or flip_target not in svd_names or any(a not in svd_names for a in mat_args):
+            raise ValueError("reflection test / flip / product do not refer to the svd factors")
+        flip_pos = svd_names.index(flip_target)
+        prod = [svd_names.index(a) for a in mat_args]
 
-    # --- as_matrix: return target @ rot @ center
-    f = _find_func(tree, "as_matrix", "AffineTransformation")
-    prods = [n for n in ast.walk(f) if isinstance(n, ast.BinOp) and isinstance(n.op, ast.MatMult)
-             and isinstance(n.left, ast.BinOp) and isinstance(n.left.op, ast.MatMult)]
-    if len(prods) != 1:
-        raise ValueError("as_matrix does not contain exactly one left-nested product of three matrices")
-    ret = prods[0]          # returned directly or stored first: either way this is the matrix handed out
-    order = []
+        # --- as_matrix: return target @ rot @ center
+        f = _find_func(tree, "as_matrix", "AffineTransformation")
+        prods = [n for n in ast.walk(f) if isinstance(n, ast.BinOp) and isinstance(n.op, ast.MatMult)
+                 and isinstance(n.left, ast.BinOp) and isinstance(n.left.op, ast.MatMult)]
+        if len(prods) != 1:
+            raise ValueError("as_matrix does not contain exactly one left-nested product of three matrices")
+        ret = prods[0]          # returned directly or stored first: either way this is the matrix handed out
+        order = []
 
-    def walk_mm(e):
-        if isinstance(e, ast.BinOp) and isinstance(e.op, ast.MatMult):
-            walk_mm(e.left)
-            order.append(ast.unparse(e.right))
-        else:
-            order.append(ast.unparse(e))
-    walk_mm(ret)
-    if len(order) != 3 or not isinstance(ret.left, ast.BinOp):
-        raise ValueError("as_matrix does not return a left-nested product of three matrices")
-    # which attribute was assigned into which matrix
-    assigned = {}
-    for node in ast.walk(f):
-        if isinstance(node, ast.Assign) and isinstance(node.targets[0], ast.Subscript) and \
-                isinstance(node.value, ast.Attribute):
-            assigned[ast.unparse(node.targets[0].value)] = (node.value.attr, ast.unparse(node.targets[0].slice).replace(" ", ""))
-    try:
-        order_attr = [assigned[o][0] for o in order]
-        slices = [assigned[o][1] for o in order]
-    except KeyError as e:
-        raise ValueError(f"as_matrix: matrix {e} has no block assignment")
+        def walk_mm(e):
+            if isinstance(e, ast.BinOp) and isinstance(e.op, ast.MatMult):
+                walk_mm(e.left)
+                order.append(ast.unparse(e.right))
+            else:
+                order.append(ast.unparse(e))
+        walk_mm(ret)
+        if len(order) != 3 or not isinstance(ret.left, ast.BinOp):
+            raise ValueError("as_matrix does not return a left-nested product of three matrices")
+        # which attribute was assigned into which matrix
+        assigned = {}
+        for node in ast.walk(f):
+            if isinstance(node, ast.Assign) and isinstance(node.targets[0], ast.Subscript) and \
+                    isinstance(node.value, ast.Attribute):
+                assigned[ast.unparse(node.targets[0].value)] = (node.value.attr, ast.unparse(node.targets[0].slice).replace(" ", ""))
+        try:
+            order_attr = [assigned[o][0] for o in order]
+            slices = [assigned[o][1] for o in order]
+        except KeyError as e:
+            raise ValueError(f"as_matrix: matrix {e} has no block assignment")
 
-    # --- apply: order of the three array operations
-    f = _find_func(tree, "apply", "AffineTransformation")
-    steps = []
-    for node in f.body:
-        if isinstance(node, ast.AugAssign) and isinstance(node.op, ast.Add):
-            steps.append("add:" + [n.attr for n in ast.walk(node.value) if isinstance(n, ast.Attribute) and n.attr.endswith("translation")][0])
-        if isinstance(node, ast.Assign) and isinstance(node.value, ast.Call) and ast.unparse(node.value.func) == H["matmul"]:
-            steps.append("matmul:" + ast.unparse(node.value.args[0]).replace("self.", ""))
-    if len(steps) != 3:
-        raise ValueError("apply: expected add / matmul / add, found " + repr(steps))
+        # --- apply: order of the three array operations
+        f = _find_func(tree, "apply", "AffineTransformation")
+        steps = []
+        for node in f.body:
+            if isinstance(node, ast.AugAssign) and isinstance(node.op, ast.Add):
+                steps.append("add:" + [n.attr for n in ast.walk(node.value) if isinstance(n, ast.Attribute) and n.attr.endswith("translation")][0])
+            if isinstance(node, ast.Assign) and isinstance(node.value, ast.Call) and ast.unparse(node.value.func) == H["matmul"]:
+                steps.append("matmul:" + ast.unparse(node.value.args[0]).replace("self.", ""))
+        if len(steps) != 3:
+            raise ValueError("apply: expected add / matmul / add, found " + repr(steps))
 
-    # --- superimpose: AffineTransformation(-mob_centroid, rotation, fix_centroid)
-    f = _find_func(tree, "superimpose")
-    params = {a.arg for a in f.args.args}
-    deps = {p: {p} for p in params}             # local name -> parameters it is computed from (source order)
-    for node in sorted((n for n in ast.walk(f) if isinstance(n, ast.Assign)), key=lambda n: n.lineno):
-        used = set()
-        for n in ast.walk(node.value):
-            if isinstance(n, ast.Name) and n.id in deps:
-                used |= deps[n.id]
-        for tgt in node.targets:
-            for n in ast.walk(tgt):
-                if isinstance(n, ast.Name):
-                    deps[n.id] = deps.get(n.id, set()) | used if isinstance(tgt, ast.Subscript) else set(used)
-    ctor = None
-    for node in ast.walk(f):
-        if isinstance(node, ast.Call) and ast.unparse(node.func) == "AffineTransformation":
-            ctor = []
-            for a in node.args:
-                neg = isinstance(a, ast.UnaryOp) and isinstance(a.op, ast.USub)
-                core = a.operand if neg else a
-                if not isinstance(core, ast.Name) or core.id not in deps:
-                    raise ValueError("superimpose: unexpected AffineTransformation argument " + ast.unparse(a))
-                ctor.append(("-" if neg else "") + "+".join(sorted(deps[core.id] & {"fixed", "mobile"})))
-    if ctor is None:
-        raise ValueError("superimpose: AffineTransformation(...) construction not found")
+        # --- superimpose: AffineTransformation(-mob_centroid, rotation, fix_centroid)
+        f = _find_func(tree, "superimpose")
+        params = {a.arg for a in f.args.args}
+        deps = {p: {p} for p in params}             # local name -> parameters it is computed from (source order)
+        for node in sorted((n for n in ast.walk(f) if isinstance(n, ast.Assign)), key=lambda n: n.lineno):
+            used = set()
+            for n in ast.walk(node.value):
+                if isinstance(n, ast.Name) and n.id in deps:
+                    used |= deps[n.id]
+            for tgt in node.targets:
+                for n in ast.walk(tgt):
+                    if isinstance(n, ast.Name):
+                        deps[n.id] = deps.get(n.id, set()) | used if isinstance(tgt, ast.Subscript) else set(used)
+        ctor = None
+        for node in ast.walk(f):
+            if isinstance(node, ast.Call) and ast.unparse(node.func) == "AffineTransformation":
+                ctor = []
+                for a in node.args:
+                    neg = isinstance(a, ast.UnaryOp) and isinstance(a.op, ast.USub)
+                    core = a.operand if neg else a
+                    if not isinstance(core, ast.Name) or core.id not in deps:
+                        raise ValueError("superimpose: unexpected AffineTransformation argument " + ast.unparse(a))
+                    ctor.append(("-" if neg else "") + "+".join(sorted(deps[core.id] & {"fixed", "mobile"})))
+        if ctor is None:
+            raise ValueError("superimpose: AffineTransformation(...) construction not found")
 
-    # --- superimpose_without_outliers: defaults and the three comparisons, returned mask
-    f = _find_func(tree, "superimpose_without_outliers")
-    names = [a.arg for a in f.args.args]
-    defaults = dict(zip(names[-len(f.args.defaults):], [ast.literal_eval(d) for d in f.args.defaults]))
-    inlier_cmp = min_cmp = iter_cmp = iter_const = returned = None
-    fit_masks = set()
-    rets = [n for n in ast.walk(f) if isinstance(n, ast.Return)]
-    if len(rets) != 1 or not isinstance(rets[0].value, ast.Tuple) or len(rets[0].value.elts) != 3 \
-            or not isinstance(rets[0].value.elts[2], ast.Name):
-        raise ValueError("superimpose_without_outliers does not return (fitted, transform, <anchor indices>)")
-    ret_anchor_name = rets[0].value.elts[2].id          # whatever the local is called
-    for node in ast.walk(f):
-        # the inlier test: `mask[mask] = (sq_dist <= bound)` — a comparison assigned through a subscript
-        if isinstance(node, ast.Assign) and isinstance(node.targets[0], ast.Subscript) and isinstance(node.value, ast.Compare):
-            inlier_cmp = _cmp_name(node.value.ops[0])
-            bound = node.value.comparators[0]
-            if not (isinstance(bound, ast.BinOp) and isinstance(bound.op, ast.Add)
-                    and any(isinstance(x, ast.BinOp) and isinstance(x.op, ast.Mult) and
-                            "outlier_threshold" in (ast.unparse(x.left), ast.unparse(x.right)) for x in (bound.left, bound.right))):
-                raise ValueError("inlier bound is not `q_upper + outlier_threshold * ipr`: " + ast.unparse(bound))
-        if isinstance(node, ast.Compare):
-            left = ast.unparse(node.left)
-            right = ast.unparse(node.comparators[0])
-            if right == "min_anchors":
-                min_cmp = _cmp_name(node.ops[0])
-                if not left.startswith("np.count_nonzero("):
-                    raise ValueError("min_anchors test changed: " + left)
-            elif left == "max_iterations":
-                iter_cmp, iter_const = _cmp_name(node.ops[0]), ast.literal_eval(node.comparators[0])
-        # masks used to select the coordinates that are fitted: coord[..., MASK, :]
-        if isinstance(node, ast.Subscript) and isinstance(node.slice, ast.Tuple) and len(node.slice.elts) == 3 and \
-                isinstance(node.slice.elts[0], ast.Constant) and node.slice.elts[0].value is Ellipsis and \
-                isinstance(node.slice.elts[1], ast.Name):
-            fit_masks.add(node.slice.elts[1].id)
-        if isinstance(node, ast.Assign) and isinstance(node.targets[0], ast.Name) and node.targets[0].id == ret_anchor_name:
-            names = [n.id for n in ast.walk(node.value) if isinstance(n, ast.Name) and n.id != "np"]
-            if not (ast.unparse(node.value).startswith("np.where(") and ast.unparse(node.value).endswith("[0]")
-                    or ast.unparse(node.value).startswith("np.flatnonzero(")) or len(names) != 1:
-                raise ValueError("anchor_indices is not np.where(<mask>)[0]")
-            returned = names[0]
-    if None in (inlier_cmp, min_cmp, iter_cmp, iter_const, returned) or len(fit_masks) != 1:
-        raise ValueError("could not extract the guards of superimpose_without_outliers")
-    returned = "fitted-mask" if returned in fit_masks else "other:" + returned
+        # --- superimpose_without_outliers: defaults and the three comparisons, returned mask
+        f = _find_func(tree, "superimpose_without_outliers")
+        names = [a.arg for a in f.args.args]
+        defaults = dict(zip(names[-len(f.args.defaults):], [ast.literal_eval(d) for d in f.args.defaults]))
+        inlier_cmp = min_cmp = iter_cmp = iter_const = returned = None
+        fit_masks = set()
+        rets = [n for n in ast.walk(f) if isinstance(n, ast.Return)]
+        if len(rets) != 1 or not isinstance(rets[0].value, ast.Tuple) or len(rets[0].value.elts) != 3 \
+                or not isinstance(rets[0].value.elts[2], ast.Name):
+            raise ValueError("superimpose_without_outliers does not return (fitted, transform, <anchor indices>)")
+        ret_anchor_name = rets[0].value.elts[2].id          # whatever the local is called
+        for node in ast.walk(f):
+            # the inlier test: `mask[mask] = (sq_dist <= bound)` — a comparison assigned through a subscript
+            if isinstance(node, ast.Assign) and isinstance(node.targets[0], ast.Subscript) and isinstance(node.value, ast.Compare):
+                inlier_cmp = _cmp_name(node.value.ops[0])
+                bound = node.value.comparators[0]
+                if not (isinstance(bound, ast.BinOp) and isinstance(bound.op, ast.Add)
+                        and any(isinstance(x, ast.BinOp) and isinstance(x.op, ast.Mult) and
+                                "outlier_threshold" in (ast.unparse(x.left), ast.unparse(x.right)) for x in (bound.left, bound.right))):
+                    raise ValueError("inlier bound is not `q_upper + outlier_threshold * ipr`: " + ast.unparse(bound))
+            if isinstance(node, ast.Compare):
+                left = ast.unparse(node.left)
+                right = ast.unparse(node.comparators[0])
+                if right == "min_anchors":
+                    min_cmp = _cmp_name(node.ops[0])
+                    if not left.startswith("np.count_nonzero("):
+                        raise ValueError("min_anchors test changed: " + left)
+                elif left == "max_iterations":
+                    iter_cmp, iter_const = _cmp_name(node.ops[0]), ast.literal_eval(node.comparators[0])
+            # masks used to select the coordinates that are fitted: coord[..., MASK, :]
+            if isinstance(node, ast.Subscript) and isinstance(node.slice, ast.Tuple) and len(node.slice.elts) == 3 and \
+                    isinstance(node.slice.elts[0], ast.Constant) and node.slice.elts[0].value is Ellipsis and \
+                    isinstance(node.slice.elts[1], ast.Name):
+                fit_masks.add(node.slice.elts[1].id)
+            if isinstance(node, ast.Assign) and isinstance(node.targets[0], ast.Name) and node.targets[0].id == ret_anchor_name:
+                names = [n.id for n in ast.walk(node.value) if isinstance(n, ast.Name) and n.id != "np"]
+                if not (ast.unparse(node.value).startswith("np.where(") and ast.unparse(node.value).endswith("[0]")
+                        or ast.unparse(node.value).startswith("np.flatnonzero(")) or len(names) != 1:
+                    raise ValueError("anchor_indices is not np.where(<mask>)[0]")
+                returned = names[0]
+        if None in (inlier_cmp, min_cmp, iter_cmp, iter_const, returned) or len(fit_masks) != 1:
+            raise ValueError("could not extract the guards of superimpose_without_outliers")
+        returned = "fitted-mask" if returned in fit_masks else "other:" + returned
 
-    def s(x):
-        return '"' + str(x) + '"'
+        def s(x):
+            return '"' + str(x) + '"'
 
-    def rat(x):
-        fr = Fraction(x).limit_denominator(10**6)
-        return f"(({fr.numerator} : Int), ({fr.denominator} : Nat))"
+        def rat(x):
+            fr = Fraction(x).limit_denominator(10**6)
+            return f"(({fr.numerator} : Int), ({fr.denominator} : Nat))"
 
-    q = defaults.get("quantiles", (None, None))
-    body = [
-        "/- REGENERATED on every run by harness/props/c16.py from structure/superimpose.py. Do not edit. -/",
-        "namespace BiotiteModel.Gen.C16",
-        "/-- `_get_rotation_matrices`: comparison and constant of the reflection test on `det(v)*det(w)`. -/",
-        f"def reflectCmp : String := {s(refl_cmp)}",
-        f"def reflectConst : Int := {int(refl_const)}",
-        "/-- position (in the svd result tuple) of the matrix whose column is flipped, the column index, the factor. -/",
-        f"def flipMatrixPos : Nat := {flip_pos}",
-        f"def flipColumn : Int := {int(flip_axis)}",
-        f"def flipFactor : Int := {int(flip_factor)}",
-        "/-- svd result positions multiplied, in order. -/",
-        f"def productOrder : List Nat := [{', '.join(map(str, prod))}]",
-        "/-- `as_matrix`: attributes in the order of the (left-nested) product and the block each one is assigned to. -/",
-        f"def matrixOrder : List String := [{', '.join(s(o) for o in order_attr)}]",
-        f"def matrixBlocks : List String := [{', '.join(s(o) for o in slices)}]",
-        "/-- `apply`: the three array operations in order. -/",
-        f"def applySteps : List String := [{', '.join(s(o) for o in steps)}]",
-        "/-- `superimpose`: arguments of the `AffineTransformation` it returns. -/",
-        f"def ctorArgs : List String := [{', '.join(s(o) for o in ctor)}]",
-        "/-- `superimpose_without_outliers`: comparisons and defaults. -/",
-        f"def inlierCmp : String := {s(inlier_cmp)}",
-        f"def minAnchorsCmp : String := {s(min_cmp)}",
-        f"def maxIterCmp : String := {s(iter_cmp)}",
-        f"def maxIterConst : Int := {int(iter_const)}",
-        f"def returnedAnchors : String := {s(returned)}",
-        f"def defaultMinAnchors : Nat := {int(defaults['min_anchors'])}",
-        f"def defaultMaxIterations : Nat := {int(defaults['max_iterations'])}",
-        f"def defaultQuantiles : List (Int × Nat) := [{rat(q[0])}, {rat(q[1])}]",
-        f"def defaultThreshold : Int × Nat := {rat(defaults['outlier_threshold'])}"]
+        q = defaults.get("quantiles", (None, None))
+        body = [
+            "/- REGENERATED on every run by harness/props/c16.py from structure/superimpose.py. Do not edit. -/",
+            "namespace BiotiteModel.Gen.C16",
+            "/-- `_get_rotation_matrices`: comparison and constant of the reflection test on `det(v)*det(w)`. -/",
+            f"def reflectCmp : String := {s(refl_cmp)}",
+            f"def reflectConst : Int := {int(refl_const)}",
+            "/-- position (in the svd result tuple) of the matrix whose column is flipped, the column index, the factor. -/",
+            f"def flipMatrixPos : Nat := {flip_pos}",
+            f"def flipColumn : Int := {int(flip_axis)}",
+            f"def flipFactor : Int := {int(flip_factor)}",
+            "/-- svd result positions multiplied, in order. -/",
+            f"def productOrder : List Nat := [{', '.join(map(str, prod))}]",
+            "/-- `as_matrix`: attributes in the order of the (left-nested) product and the block each one is assigned to. -/",
+            f"def matrixOrder : List String := [{', '.join(s(o) for o in order_attr)}]",
+            f"def matrixBlocks : List String := [{', '.join(s(o) for o in slices)}]",
+            "/-- `apply`: the three array operations in order. -/",
+            f"def applySteps : List String := [{', '.join(s(o) for o in steps)}]",
+            "/-- `superimpose`: arguments of the `AffineTransformation` it returns. -/",
+            f"def ctorArgs : List String := [{', '.join(s(o) for o in ctor)}]",
+            "/-- `superimpose_without_outliers`: comparisons and defaults. -/",
+            f"def inlierCmp : String := {s(inlier_cmp)}",
+            f"def minAnchorsCmp : String := {s(min_cmp)}",
+            f"def maxIterCmp : String := {s(iter_cmp)}",
+            f"def maxIterConst : Int := {int(iter_const)}",
+            f"def returnedAnchors : String := {s(returned)}",
+            f"def defaultMinAnchors : Nat := {int(defaults['min_anchors'])}",
+            f"def defaultMaxIterations : Nat := {int(defaults['max_iterations'])}",
+            f"def defaultQuantiles : List (Int × Nat) := [{rat(q[0])}, {rat(q[1])}]",
+            f"def defaultThreshold : Int × Nat := {rat(defaults['outlier_threshold'])}"]
+        return body[2:]
+    body = ["/- REGENERATED on every run by harness/props/c16.py from structure/superimpose.py. Do not edit. -/",
+            "namespace BiotiteModel.Gen.C16"] + _safe_group(_p1, [('reflectCmp', 'String'), ('reflectConst', 'Int'), ('flipMatrixPos', 'Nat'), ('flipColumn', 'Int'), ('flipFactor', 'Int'), ('productOrder', 'List Nat'), ('matrixOrder', 'List String'), ('matrixBlocks', 'List String'), ('applySteps', 'List String'), ('ctorArgs', 'List String'), ('inlierCmp', 'String'), ('minAnchorsCmp', 'String'), ('maxIterCmp', 'String'), ('maxIterConst', 'Int'), ('returnedAnchors', 'String'), ('defaultMinAnchors', 'Nat'), ('defaultMaxIterations', 'Nat'), ('defaultQuantiles', 'List (Int × Nat)'), ('defaultThreshold', 'Int × Nat')], "guards of the rotation step / as_matrix / apply / outlier loop", _GEN_ERRORS)
     geo_tree = ast.parse(open(os.path.join(paths.SRC, "biotite/structure/geometry.py")).read())
     body += _gen_structure(tree, cmp_tree, geo_tree, H)
     body += ["end BiotiteModel.Gen.C16", ""]
@@ -612,313 +654,373 @@ def _sig_defaults(f):
     return names, {n: ast.literal_eval(d) for n, d in zip(names[len(names) - len(ds):], ds)}
 
 
+_GEN_ERRORS = []          # groups whose shape was not recognised in the last gen_lean() (reported through the obligations)
+_SENTINEL = {"String": '"UNRECOGNISED"', "List String": '["UNRECOGNISED"]', "Nat": "0", "Int": "0", "Bool": "false",
+             "List Nat": "[]", "List Int": "[]", "List (String × String)": "[]", "List (String × String × Nat)": "[]",
+             "List (Int × Nat)": "[]", "Int × Nat": "((0 : Int), (1 : Nat))"}
+
+
+def _safe_group(fn, defs, title, errors):
+    """Run one extraction group; if the source no longer has the shape the group looks for, do not crash the translator:
+    emit the group's definitions with sentinel values, so that the *named* Lean obligation of that group fails."""
+    try:
+        return fn()
+    except Exception as e:  # noqa: BLE001
+        errors.append(f"{title}: {type(e).__name__}: {e}")
+        return [f"/- NOT RECOGNISED ({title}): {str(e)[:200].replace('-/', '- /')} -/"] + \
+               [f"def {n} : {t.strip()} := {_SENTINEL[t.strip()]}" for n, t in defs]
+
+
 def _gen_structure(tree, cmp_tree, geo_tree, H):
     """Structural facts of the anchored source the hand-written model hard-codes, as Lean definitions."""
     L = []
+    errors = _GEN_ERRORS
     S = lambda x: '"' + str(x) + '"'                                  # noqa: E731
     SL = lambda xs: "[" + ", ".join(S(x) for x in xs) + "]"             # noqa: E731
     IL = lambda xs: "[" + ", ".join(str(int(x)) for x in xs) + "]"      # noqa: E731
 
-    # ---- AffineTransformation.__init__ : parameter order and the dimensionalities of _expand_dims
-    f = _find_func(tree, "__init__", "AffineTransformation")
-    params = [a.arg for a in f.args.args][1:]
-    dims = {}
-    for st in f.body:
-        if isinstance(st, ast.Assign) and isinstance(st.value, ast.Call) and _u(st.value.func) == H["expand"]:
-            dims[st.targets[0].attr] = (ast.unparse(st.value.args[0]), ast.literal_eval(st.value.args[1]))
-    _need(len(dims) == 3, "__init__ does not store three _expand_dims(...) results")
-    L += ["/-- constructor parameters (the adapter passes them positionally) and `attr := _expand_dims(param, n)`. -/",
-          f"def ctorParams : List String := {SL(params)}",
-          "def ctorStores : List (String × String × Nat) := [" + ", ".join(f"({S(a)}, {S(dims[a][0])}, {dims[a][1]})" for a in sorted(dims)) + "]"]
-    g = _alpha(_find_func(tree, H["expand"]))
-    w = [st for st in g.body if isinstance(st, (ast.While, ast.For))]
-    ok = len(w) == 1 and len(w[0].body) == 1 and _u(w[0].body[0]) == "P0=P0[np.newaxis,...]" and _u(g.body[-1]) == "returnP0" and (
-        (isinstance(w[0], ast.While) and _u(w[0].test) == "P0.ndim<P1")
-        or (isinstance(w[0], ast.For) and _u(w[0].iter) == "range(P1-P0.ndim)"))        # the same number of prepended axes
-    _need(ok, "the dimension-expanding helper does not prepend axes until ndim == n")
-    L += ['def expandDims : String := "prepend-axes-while-ndim<n"']
+    def _g0():
+        L = []
+        # ---- AffineTransformation.__init__ : parameter order and the dimensionalities of _expand_dims
+        f = _find_func(tree, "__init__", "AffineTransformation")
+        params = [a.arg for a in f.args.args][1:]
+        dims = {}
+        for st in f.body:
+            if isinstance(st, ast.Assign) and isinstance(st.value, ast.Call) and _u(st.value.func) == H["expand"]:
+                dims[st.targets[0].attr] = (ast.unparse(st.value.args[0]), ast.literal_eval(st.value.args[1]))
+        _need(len(dims) == 3, "__init__ does not store three _expand_dims(...) results")
+        L += ["/-- constructor parameters (the adapter passes them positionally) and `attr := _expand_dims(param, n)`. -/",
+              f"def ctorParams : List String := {SL(params)}",
+              "def ctorStores : List (String × String × Nat) := [" + ", ".join(f"({S(a)}, {S(dims[a][0])}, {dims[a][1]})" for a in sorted(dims)) + "]"]
+        g = _alpha(_find_func(tree, H["expand"]))
+        w = [st for st in g.body if isinstance(st, (ast.While, ast.For))]
+        ok = len(w) == 1 and len(w[0].body) == 1 and _u(w[0].body[0]) == "P0=P0[np.newaxis,...]" and _u(g.body[-1]) == "returnP0" and (
+            (isinstance(w[0], ast.While) and _u(w[0].test) == "P0.ndim<P1")
+            or (isinstance(w[0], ast.For) and _u(w[0].iter) == "range(P1-P0.ndim)"))        # the same number of prepended axes
+        _need(ok, "the dimension-expanding helper does not prepend axes until ndim == n")
+        L += ['def expandDims : String := "prepend-axes-while-ndim<n"']
+        return L
+    L += _safe_group(_g0, [('ctorParams', 'List String'), ('ctorStores', 'List (String × String × Nat)'), ('expandDims', 'String')], 'AffineTransformation.__init__ ', errors)
 
-    # ---- apply: model-count guard, copy of the input, result reshaped to the input shape
-    f = _find_func(tree, "apply", "AffineTransformation")
-    guard = [st for st in f.body if isinstance(st, ast.If) and _raise_class(st.body)]
-    _need(len(guard) == 1 and isinstance(guard[0].test, ast.Compare), "apply has not exactly one raising guard")
-    t = guard[0].test
-    xs = [st.targets[0].id for st in f.body if isinstance(st, ast.Assign) and _u(st.value) == "coord(atoms)"]
-    _need(len(xs) == 1, "apply does not start from coord(atoms)")
-    X = xs[0]                                           # the local holding the coordinates, whatever it is called
-    _need(_u(t.left) == f"{X}.shape[0]" and isinstance(t.comparators[0], ast.Subscript), "apply guard does not compare <coordinates>.shape[0]")
-    attr = [n.attr for n in ast.walk(t.comparators[0]) if isinstance(n, ast.Attribute) and isinstance(n.value, ast.Name) and n.value.id == "self"]
-    _need(len(attr) == 1 and _u(t.comparators[0]) == f"self.{attr[0]}.shape[0]", "apply guard right-hand side is not self.<attr>.shape[0]")
-    copies = any(isinstance(st, ast.Assign) and _u(st.value) == f"{X}.copy()" for st in f.body)
-    shp = [st.targets[0].id for st in f.body if isinstance(st, ast.Assign) and isinstance(st.targets[0], ast.Name)
-           and _u(st.value) == f"{X}.shape"]              # the local remembering the input shape, whatever it is called
-    reshape = len(shp) == 1 and any(isinstance(st, ast.Assign) and _u(st.value).endswith(f".reshape({shp[0]})") for st in f.body)
-    pre = [_us(st.value, {X: "mobile_coord"}) for st in f.body if isinstance(st, ast.Assign) and isinstance(st.targets[0], ast.Name)
-           and st.targets[0].id == X]
-    pre = [x.replace(H["reshape"] + "(", "RESHAPE3D(") for x in pre]
-    L += ["/-- `apply`: `if mobile_coord.shape[0] <cmp> self.<attr>.shape[0]: raise <exc>`; works on a copy; reshapes back. -/",
-          f"def applyGuard : List String := {SL([_cmp_name(t.ops[0]), attr[0], _raise_class(guard[0].body)])}",
-          f"def applyCopiesInput : Bool := {'true' if copies else 'false'}",
-          f"def applyReshapesBack : Bool := {'true' if reshape else 'false'}",
-          f"def applyInput : List String := {SL(pre)}"]
+    def _g1():
+        L = []
+        # ---- apply: model-count guard, copy of the input, result reshaped to the input shape
+        f = _find_func(tree, "apply", "AffineTransformation")
+        guard = [st for st in f.body if isinstance(st, ast.If) and _raise_class(st.body)]
+        _need(len(guard) == 1 and isinstance(guard[0].test, ast.Compare), "apply has not exactly one raising guard")
+        t = guard[0].test
+        xs = [st.targets[0].id for st in f.body if isinstance(st, ast.Assign) and _u(st.value) == "coord(atoms)"]
+        _need(len(xs) == 1, "apply does not start from coord(atoms)")
+        X = xs[0]                                           # the local holding the coordinates, whatever it is called
+        _need(_u(t.left) == f"{X}.shape[0]" and isinstance(t.comparators[0], ast.Subscript), "apply guard does not compare <coordinates>.shape[0]")
+        attr = [n.attr for n in ast.walk(t.comparators[0]) if isinstance(n, ast.Attribute) and isinstance(n.value, ast.Name) and n.value.id == "self"]
+        _need(len(attr) == 1 and _u(t.comparators[0]) == f"self.{attr[0]}.shape[0]", "apply guard right-hand side is not self.<attr>.shape[0]")
+        copies = any(isinstance(st, ast.Assign) and _u(st.value) == f"{X}.copy()" for st in f.body)
+        shp = [st.targets[0].id for st in f.body if isinstance(st, ast.Assign) and isinstance(st.targets[0], ast.Name)
+               and _u(st.value) == f"{X}.shape"]              # the local remembering the input shape, whatever it is called
+        reshape = len(shp) == 1 and any(isinstance(st, ast.Assign) and _u(st.value).endswith(f".reshape({shp[0]})") for st in f.body)
+        pre = [_us(st.value, {X: "mobile_coord"}) for st in f.body if isinstance(st, ast.Assign) and isinstance(st.targets[0], ast.Name)
+               and st.targets[0].id == X]
+        pre = [x.replace(H["reshape"] + "(", "RESHAPE3D(") for x in pre]
+        L += ["/-- `apply`: `if mobile_coord.shape[0] <cmp> self.<attr>.shape[0]: raise <exc>`; works on a copy; reshapes back. -/",
+              f"def applyGuard : List String := {SL([_cmp_name(t.ops[0]), attr[0], _raise_class(guard[0].body)])}",
+              f"def applyCopiesInput : Bool := {'true' if copies else 'false'}",
+              f"def applyReshapesBack : Bool := {'true' if reshape else 'false'}",
+              f"def applyInput : List String := {SL(pre)}"]
+        return L
+    L += _safe_group(_g1, [('applyGuard', 'List String'), ('applyCopiesInput', 'Bool'), ('applyReshapesBack', 'Bool'), ('applyInput', 'List String')], 'apply', errors)
 
-    # ---- _reshape_to_3d: the ndim ladder
-    f = _find_func(tree, H["reshape"])
-    ladder = _ndim_table(f)
+    def _g2():
+        L = []
+        # ---- _reshape_to_3d: the ndim ladder
+        f = _find_func(tree, H["reshape"])
+        ladder = _ndim_table(f)
 
-    L += ["/-- `_reshape_to_3d`: what happens for ndim = 0..5 (semantic table, independent of the order of the tests). -/", f"def reshapeLadder : List String := {SL(ladder)}"]
+        L += ["/-- `_reshape_to_3d`: what happens for ndim = 0..5 (semantic table, independent of the order of the tests). -/", f"def reshapeLadder : List String := {SL(ladder)}"]
+        return L
+    L += _safe_group(_g2, [('reshapeLadder', 'List String')], '_reshape_to_3d', errors)
 
-    # ---- as_matrix: size of the identity matrices, where the model count comes from; _3d_identity
-    f = _find_func(tree, "as_matrix", "AffineTransformation")
-    calls = [n for n in ast.walk(f) if isinstance(n, ast.Call) and _u(n.func) == H["identity"]]
-    _need(len(calls) == 3 and all(len(c.args) == 2 and not c.keywords for c in calls), "as_matrix does not build three _3d_identity(m, n)")
-    sizes = sorted({ast.literal_eval(c.args[1]) for c in calls})
-    cnt = {_u(c.args[0]) for c in calls}
-    _need(len(sizes) == 1 and len(cnt) == 1, "the three identity matrices differ")
-    cnt_name = next(iter(cnt))
-    cnt_src = [_u(st.value) for st in f.body if isinstance(st, ast.Assign) and _u(st.targets[0]) == cnt_name]
-    _need(len(cnt_src) == 1, "model count of as_matrix not found")
-    g = _alpha(_find_func(tree, H["identity"]))
-    z = [n for n in ast.walk(g) if isinstance(n, ast.Call) and _u(n.func) in ("np.zeros", "np.eye")]
-    _need(len(z) == 1 and [k.arg for k in z[0].keywords] == ["dtype"], "identity helper: one np.zeros/np.eye(..., dtype=…) expected")
-    if _u(z[0].func) == "np.zeros":          # zeros((m,n,n)) + diagonal := 1
-        diag = [st for st in g.body if isinstance(st, ast.Assign) and isinstance(st.targets[0], ast.Subscript)]
-        rng_ = [st for st in g.body if isinstance(st, ast.Assign) and _u(st.value) == "np.arange(P1)"]
-        _need(_u(z[0].args[0]) == "(P0,P1,P1)" and len(diag) == 1 and len(rng_) == 1 and ast.literal_eval(diag[0].value) == 1
-              and _u(diag[0].targets[0]) == "L0[:,{0},{0}]".format(rng_[0].targets[0].id), "identity helper: zeros + unit diagonal")
-    else:                                       # broadcast_to(eye(n), (m,n,n)).copy()
-        _need(_u(g.body[-1]) == "returnnp.broadcast_to(np.eye(P1,dtype=" + _u(z[0].keywords[0].value) + "),(P0,P1,P1)).copy()",
-              "identity helper: broadcast eye form")
-    L += ["/-- `as_matrix`: identity size, source of the model count; `_3d_identity`: dtype of the zeros, diagonal value 1. -/",
-          f"def matrixSize : Nat := {sizes[0]}", f"def matrixCount : String := {S(cnt_src[0])}",
-          f"def identityDtype : String := {S(_u(z[0].keywords[0].value))}"]
+    def _g3():
+        L = []
+        # ---- as_matrix: size of the identity matrices, where the model count comes from; _3d_identity
+        f = _find_func(tree, "as_matrix", "AffineTransformation")
+        calls = [n for n in ast.walk(f) if isinstance(n, ast.Call) and _u(n.func) == H["identity"]]
+        _need(len(calls) == 3 and all(len(c.args) == 2 and not c.keywords for c in calls), "as_matrix does not build three _3d_identity(m, n)")
+        sizes = sorted({ast.literal_eval(c.args[1]) for c in calls})
+        cnt = {_u(c.args[0]) for c in calls}
+        _need(len(sizes) == 1 and len(cnt) == 1, "the three identity matrices differ")
+        cnt_name = next(iter(cnt))
+        cnt_src = [_u(st.value) for st in f.body if isinstance(st, ast.Assign) and _u(st.targets[0]) == cnt_name]
+        _need(len(cnt_src) == 1, "model count of as_matrix not found")
+        g = _alpha(_find_func(tree, H["identity"]))
+        z = [n for n in ast.walk(g) if isinstance(n, ast.Call) and _u(n.func) in ("np.zeros", "np.eye")]
+        _need(len(z) == 1 and [k.arg for k in z[0].keywords] == ["dtype"], "identity helper: one np.zeros/np.eye(..., dtype=…) expected")
+        if _u(z[0].func) == "np.zeros":          # zeros((m,n,n)) + diagonal := 1
+            diag = [st for st in g.body if isinstance(st, ast.Assign) and isinstance(st.targets[0], ast.Subscript)]
+            rng_ = [st for st in g.body if isinstance(st, ast.Assign) and _u(st.value) == "np.arange(P1)"]
+            _need(_u(z[0].args[0]) == "(P0,P1,P1)" and len(diag) == 1 and len(rng_) == 1 and ast.literal_eval(diag[0].value) == 1
+                  and _u(diag[0].targets[0]) == "L0[:,{0},{0}]".format(rng_[0].targets[0].id), "identity helper: zeros + unit diagonal")
+        else:                                       # broadcast_to(eye(n), (m,n,n)).copy()
+            _need(_u(g.body[-1]) == "returnnp.broadcast_to(np.eye(P1,dtype=" + _u(z[0].keywords[0].value) + "),(P0,P1,P1)).copy()",
+                  "identity helper: broadcast eye form")
+        L += ["/-- `as_matrix`: identity size, source of the model count; `_3d_identity`: dtype of the zeros, diagonal value 1. -/",
+              f"def matrixSize : Nat := {sizes[0]}", f"def matrixCount : String := {S(cnt_src[0])}",
+              f"def identityDtype : String := {S(_u(z[0].keywords[0].value))}"]
+        return L
+    L += _safe_group(_g3, [('matrixSize', 'Nat'), ('matrixCount', 'String'), ('identityDtype', 'String')], 'as_matrix', errors)
 
-    # ---- superimpose: mask indexing, centroids of the FILTERED arrays, centring, argument order of the rotation, return
-    f = _find_func(tree, "superimpose")
-    names, dflt = _sig_defaults(f)
-    maskif = [st for st in f.body if isinstance(st, ast.If) and _u(st.test) in ("atom_maskisnotNone", "atom_maskisNone")]
-    _need(len(maskif) == 1, "superimpose: `if atom_mask is (not) None` not found")
-    masked_branch, plain_branch = (maskif[0].body, maskif[0].orelse) if _u(maskif[0].test) == "atom_maskisnotNone" \
-        else (maskif[0].orelse, maskif[0].body)
-    filt = {}
-    for st in masked_branch:
-        _need(isinstance(st, ast.Assign) and isinstance(st.value, ast.Subscript), "mask branch is not a pair of subscript assignments")
-        sl = st.value.slice
-        _need(isinstance(sl, ast.Tuple) and [_u(e) for e in sl.elts] == [":", "atom_mask", ":"], "mask is not applied as [:, atom_mask, :]")
-        filt[st.targets[0].id] = ast.unparse(st.value.value)
-    unf = {st.targets[0].id: _u(st.value) for st in plain_branch if isinstance(st, ast.Assign)}
-    _need(set(unf) == set(filt) and all(unf[k] == f"np.copy({filt[k]})" for k in filt), "unmasked branch is not np.copy of the same arrays")
-    src3d = {st.targets[0].id: _u(st.value) for st in f.body if isinstance(st, ast.Assign) and isinstance(st.targets[0], ast.Name)
-             and _u(st.value).startswith(H["reshape"] + "(coord(")}
-    role = {k: src3d[v][len(H["reshape"] + "(coord("):-2] for k, v in filt.items()}        # filtered var -> fixed/mobile
-    _need(sorted(role.values()) == ["fixed", "mobile"], "filtered arrays do not come from coord(fixed) / coord(mobile)")
-    cents, centred = {}, {}
-    for st in f.body:
-        if isinstance(st, ast.Assign) and isinstance(st.value, ast.Call) and _u(st.value.func) == "centroid":
-            a = _u(st.value.args[0])
-            _need(a in role, f"centroid is taken of `{a}`, not of a mask-filtered array")
-            cents[st.targets[0].id] = role[a]
-        if isinstance(st, ast.Assign) and isinstance(st.value, ast.BinOp) and isinstance(st.value.op, ast.Sub):
-            l, r = _u(st.value.left), _u(st.value.right)
-            _need(l in role and r.endswith("[:,np.newaxis,:]") and cents.get(r.split("[")[0]) == role[l],
-                  f"centring `{ast.unparse(st.value)}` does not subtract the array's own centroid")
-            centred[st.targets[0].id] = role[l]
-    rc = [n for n in ast.walk(f) if isinstance(n, ast.Call) and _u(n.func) == H["rotation"]]
-    _need(len(rc) == 1 and len(rc[0].args) == 2 and all(_u(a) in centred for a in rc[0].args), "rotation is not computed from the two centred arrays")
-    ret = [st for st in f.body if isinstance(st, ast.Return)][-1].value
-    tn = [st.targets[0].id for st in f.body if isinstance(st, ast.Assign) and isinstance(st.value, ast.Call)
-          and _u(st.value.func) == "AffineTransformation"]
-    _need(len(tn) == 1, "superimpose: one AffineTransformation(...) assignment")
-    tname = tn[0]
-    L += ["/-- `superimpose`: signature, mask application, what the centroids are taken of, centring, rotation arguments, result. -/",
-          f"def supParams : List String := {SL(names)}",
-          f"def supDefaults : List (String × String) := [" + ", ".join(f"({S(k)}, {S(v)})" for k, v in dflt.items()) + "]",
-          f"def supMaskSlice : String := {S('[:,atom_mask,:]')}",
-          f"def supCentroidOf : List String := {SL(sorted('filtered-' + v for v in cents.values()))}",
-          f"def supCentred : List String := {SL(sorted(centred.values()))}",
-          f"def supRotationArgs : List String := {SL([centred[_u(a)] for a in rc[0].args])}",
-          f"def supReturn : String := {S(_us(ret, {tname: 'transform'}))}"]
+    def _g4():
+        L = []
+        # ---- superimpose: mask indexing, centroids of the FILTERED arrays, centring, argument order of the rotation, return
+        f = _find_func(tree, "superimpose")
+        names, dflt = _sig_defaults(f)
+        maskif = [st for st in f.body if isinstance(st, ast.If) and _u(st.test) in ("atom_maskisnotNone", "atom_maskisNone")]
+        _need(len(maskif) == 1, "superimpose: `if atom_mask is (not) None` not found")
+        masked_branch, plain_branch = (maskif[0].body, maskif[0].orelse) if _u(maskif[0].test) == "atom_maskisnotNone" \
+            else (maskif[0].orelse, maskif[0].body)
+        filt = {}
+        for st in masked_branch:
+            _need(isinstance(st, ast.Assign) and isinstance(st.value, ast.Subscript), "mask branch is not a pair of subscript assignments")
+            sl = st.value.slice
+            _need(isinstance(sl, ast.Tuple) and [_u(e) for e in sl.elts] == [":", "atom_mask", ":"], "mask is not applied as [:, atom_mask, :]")
+            filt[st.targets[0].id] = ast.unparse(st.value.value)
+        unf = {st.targets[0].id: _u(st.value) for st in plain_branch if isinstance(st, ast.Assign)}
+        _need(set(unf) == set(filt) and all(unf[k] == f"np.copy({filt[k]})" for k in filt), "unmasked branch is not np.copy of the same arrays")
+        src3d = {st.targets[0].id: _u(st.value) for st in f.body if isinstance(st, ast.Assign) and isinstance(st.targets[0], ast.Name)
+                 and _u(st.value).startswith(H["reshape"] + "(coord(")}
+        role = {k: src3d[v][len(H["reshape"] + "(coord("):-2] for k, v in filt.items()}        # filtered var -> fixed/mobile
+        _need(sorted(role.values()) == ["fixed", "mobile"], "filtered arrays do not come from coord(fixed) / coord(mobile)")
+        cents, centred = {}, {}
+        for st in f.body:
+            if isinstance(st, ast.Assign) and isinstance(st.value, ast.Call) and _u(st.value.func) == "centroid":
+                a = _u(st.value.args[0])
+                _need(a in role, f"centroid is taken of `{a}`, not of a mask-filtered array")
+                cents[st.targets[0].id] = role[a]
+            if isinstance(st, ast.Assign) and isinstance(st.value, ast.BinOp) and isinstance(st.value.op, ast.Sub):
+                l, r = _u(st.value.left), _u(st.value.right)
+                _need(l in role and r.endswith("[:,np.newaxis,:]") and cents.get(r.split("[")[0]) == role[l],
+                      f"centring `{ast.unparse(st.value)}` does not subtract the array's own centroid")
+                centred[st.targets[0].id] = role[l]
+        rc = [n for n in ast.walk(f) if isinstance(n, ast.Call) and _u(n.func) == H["rotation"]]
+        _need(len(rc) == 1 and len(rc[0].args) == 2 and all(_u(a) in centred for a in rc[0].args), "rotation is not computed from the two centred arrays")
+        ret = [st for st in f.body if isinstance(st, ast.Return)][-1].value
+        tn = [st.targets[0].id for st in f.body if isinstance(st, ast.Assign) and isinstance(st.value, ast.Call)
+              and _u(st.value.func) == "AffineTransformation"]
+        _need(len(tn) == 1, "superimpose: one AffineTransformation(...) assignment")
+        tname = tn[0]
+        L += ["/-- `superimpose`: signature, mask application, what the centroids are taken of, centring, rotation arguments, result. -/",
+              f"def supParams : List String := {SL(names)}",
+              f"def supDefaults : List (String × String) := [" + ", ".join(f"({S(k)}, {S(v)})" for k, v in dflt.items()) + "]",
+              f"def supMaskSlice : String := {S('[:,atom_mask,:]')}",
+              f"def supCentroidOf : List String := {SL(sorted('filtered-' + v for v in cents.values()))}",
+              f"def supCentred : List String := {SL(sorted(centred.values()))}",
+              f"def supRotationArgs : List String := {SL([centred[_u(a)] for a in rc[0].args])}",
+              f"def supReturn : String := {S(_us(ret, {tname: 'transform'}))}"]
+        return L
+    L += _safe_group(_g4, [('supParams', 'List String'), ('supDefaults', 'List (String × String)'), ('supMaskSlice', 'String'), ('supCentroidOf', 'List String'), ('supCentred', 'List String'), ('supRotationArgs', 'List String'), ('supReturn', 'String')], 'superimpose', errors)
 
-    # ---- _get_rotation_matrices: the covariance expression and that it reaches svd unchanged
-    f = _find_func(tree, H["rotation"])
-    fparams = [a.arg for a in f.args.args]
-    body = [st for st in f.body if not (isinstance(st, ast.Expr) and isinstance(st.value, ast.Constant))]
-    _need(isinstance(body[0], ast.Assign) and isinstance(body[0].value, ast.Call) and _u(body[0].value.func) == "np.sum",
-          "first statement of _get_rotation_matrices is not cov = np.sum(...)")
-    c = body[0].value
-    _need(len(c.args) == 1 and isinstance(c.args[0], ast.BinOp) and isinstance(c.args[0].op, ast.Mult)
-          and [k.arg for k in c.keywords] == ["axis"], "covariance is not np.sum(a * b, axis=…)")
-    fac = []
-    for side in (c.args[0].left, c.args[0].right):
-        _need(isinstance(side, ast.Subscript) and isinstance(side.value, ast.Name) and isinstance(side.slice, ast.Tuple), "covariance factor is not name[...]")
-        el = [_u(e) for e in side.slice.elts]
-        _need(el.count("np.newaxis") == 1 and all(e in (":", "np.newaxis") for e in el) and len(el) == 4, "covariance factor slice")
-        fac.append(f"{fparams.index(side.value.id)}@{el.index('np.newaxis')}")
-    cov_name = body[0].targets[0].id
-    _need(isinstance(body[1], ast.Assign) and isinstance(body[1].value, ast.Call) and _u(body[1].value.func) == "np.linalg.svd"
-          and [_u(a) for a in body[1].value.args] == [cov_name] and not body[1].value.keywords,
-          "the covariance does not go straight (next statement, unmodified, no keywords) into np.linalg.svd")
-    L += ["/-- `_get_rotation_matrices(fixed, mobile)`: `cov = np.sum(p0[..newaxis@i] * p1[..newaxis@j], axis=k)` handed directly to svd. -/",
-          f"def rotParams : List String := {SL(['fixed', 'mobile'] if len(fparams) == 2 else fparams)}",  # called as (fixed, mobile): supRotationArgs
-          f"def covFactors : List String := {SL(fac)}", f"def covAxis : Int := {ast.literal_eval(c.keywords[0].value)}",
-          "def covDirectlyToSvd : Bool := true"]
+    def _g5():
+        L = []
+        # ---- _get_rotation_matrices: the covariance expression and that it reaches svd unchanged
+        f = _find_func(tree, H["rotation"])
+        fparams = [a.arg for a in f.args.args]
+        body = [st for st in f.body if not (isinstance(st, ast.Expr) and isinstance(st.value, ast.Constant))]
+        _need(isinstance(body[0], ast.Assign) and isinstance(body[0].value, ast.Call) and _u(body[0].value.func) == "np.sum",
+              "first statement of _get_rotation_matrices is not cov = np.sum(...)")
+        c = body[0].value
+        _need(len(c.args) == 1 and isinstance(c.args[0], ast.BinOp) and isinstance(c.args[0].op, ast.Mult)
+              and [k.arg for k in c.keywords] == ["axis"], "covariance is not np.sum(a * b, axis=…)")
+        fac = []
+        for side in (c.args[0].left, c.args[0].right):
+            _need(isinstance(side, ast.Subscript) and isinstance(side.value, ast.Name) and isinstance(side.slice, ast.Tuple), "covariance factor is not name[...]")
+            el = [_u(e) for e in side.slice.elts]
+            _need(el.count("np.newaxis") == 1 and all(e in (":", "np.newaxis") for e in el) and len(el) == 4, "covariance factor slice")
+            fac.append(f"{fparams.index(side.value.id)}@{el.index('np.newaxis')}")
+        cov_name = body[0].targets[0].id
+        _need(isinstance(body[1], ast.Assign) and isinstance(body[1].value, ast.Call) and _u(body[1].value.func) == "np.linalg.svd"
+              and [_u(a) for a in body[1].value.args] == [cov_name] and not body[1].value.keywords,
+              "the covariance does not go straight (next statement, unmodified, no keywords) into np.linalg.svd")
+        L += ["/-- `_get_rotation_matrices(fixed, mobile)`: `cov = np.sum(p0[..newaxis@i] * p1[..newaxis@j], axis=k)` handed directly to svd. -/",
+              f"def rotParams : List String := {SL(['fixed', 'mobile'] if len(fparams) == 2 else fparams)}",  # called as (fixed, mobile): supRotationArgs
+              f"def covFactors : List String := {SL(fac)}", f"def covAxis : Int := {ast.literal_eval(c.keywords[0].value)}",
+              "def covDirectlyToSvd : Bool := true"]
+        return L
+    L += _safe_group(_g5, [('rotParams', 'List String'), ('covFactors', 'List String'), ('covAxis', 'Int'), ('covDirectlyToSvd', 'Bool')], '_get_rotation_matrices', errors)
 
-    # ---- _multi_matmul
-    f = _alpha(_find_func(tree, H["matmul"]))
-    r = [st for st in f.body if isinstance(st, ast.Return)][0].value
-    _need(_u(r) == "np.transpose(np.matmul(P0,np.transpose(P1,axes=(0,2,1))),axes=(0,2,1))", "the batched matmul helper changed: " + ast.unparse(r))
-    L += ['def multiMatmul : String := "transpose(matmul(matrices, transpose(vectors,(0,2,1))),(0,2,1))"']
+    def _g6():
+        L = []
+        # ---- _multi_matmul
+        f = _alpha(_find_func(tree, H["matmul"]))
+        r = [st for st in f.body if isinstance(st, ast.Return)][0].value
+        _need(_u(r) == "np.transpose(np.matmul(P0,np.transpose(P1,axes=(0,2,1))),axes=(0,2,1))", "the batched matmul helper changed: " + ast.unparse(r))
+        L += ['def multiMatmul : String := "transpose(matmul(matrices, transpose(vectors,(0,2,1))),(0,2,1))"']
+        return L
+    L += _safe_group(_g6, [('multiMatmul', 'String')], '_multi_matmul', errors)
 
-    # ---- superimpose_without_outliers: everything the loop model hard-codes
-    f = _find_func(tree, "superimpose_without_outliers")
-    names, dflt = _sig_defaults(f)
-    g0 = [st for st in f.body if isinstance(st, ast.If)][0]
-    q = [st for st in f.body if isinstance(st, ast.Assign) and _u(st.targets[0]) == "quantiles"]
-    init = [st for st in f.body if isinstance(st, ast.Assign) and _u(st.value).startswith("np.ones(")]
-    loop = [st for st in f.body if isinstance(st, ast.For)]
-    _need(len(loop) == 1 and len(init) == 1 and len(q) == 1, "outlier loop / initial mask / quantile sorting not found")
-    lb = loop[0].body
-    sq = [st for st in lb if isinstance(st, ast.Assign) and isinstance(st.value, ast.BinOp) and isinstance(st.value.op, ast.Pow)]
-    _need(len(sq) == 1 and isinstance(sq[0].value.left, ast.Call), "squared distance expression not found")
-    dcall = sq[0].value.left
-    sup_call = [st for st in lb if isinstance(st, ast.Assign) and isinstance(st.value, ast.Call) and _u(st.value.func) == "superimpose"]
-    _need(len(sup_call) == 1 and len(sup_call[0].value.args) == 2 and not sup_call[0].value.keywords, "inner superimpose(fixed_sel, mobile_sel) call")
-    sel = {}
-    for st in lb:
-        if isinstance(st, ast.Assign) and isinstance(st.value, ast.Subscript) and isinstance(st.value.slice, ast.Tuple) \
-                and len(st.value.slice.elts) == 3 and _u(st.value.slice.elts[0]) == "...":
-            sel[st.targets[0].id] = _u(st.value.value)
-    coord_src = {st.targets[0].id: _u(st.value) for st in f.body if isinstance(st, ast.Assign) and _u(st.value).startswith("coord(")}
-    inner = [coord_src.get(sel.get(_u(a), ""), "?") for a in sup_call[0].value.args]
-    fit_out = [_u(e) for e in sup_call[0].targets[0].elts]
-    d_args = [(_u(a) == fit_out[0] and "superimposed") or coord_src.get(sel.get(_u(a), ""), "?") for a in dcall.args]
-    meanif = [st for st in lb if isinstance(st, ast.If) and "ndim" in _u(st.test)]
-    _need(len(meanif) == 1 and isinstance(meanif[0].test, ast.Compare), "mean over models not found")
-    mcall = meanif[0].body[0].value
-    qcall = [st for st in lb if isinstance(st, ast.Assign) and isinstance(st.value, ast.Call) and _u(st.value.func) == "np.quantile"]
-    _need(len(qcall) == 1 and isinstance(qcall[0].targets[0], ast.Tuple), "np.quantile call")
-    qn = [_u(e) for e in qcall[0].targets[0].elts]
-    ipr = [st for st in lb if isinstance(st, ast.Assign) and isinstance(st.value, ast.BinOp) and isinstance(st.value.op, ast.Sub)
-           and {_u(st.value.left), _u(st.value.right)} == set(qn)]
-    _need(len(ipr) == 1, "ipr = upper - lower not found")
-    bound = [st for st in lb if isinstance(st, ast.Assign) and isinstance(st.targets[0], ast.Subscript) and isinstance(st.value, ast.Compare)][0].value.comparators[0]
-    bl = [_u(x) for x in (bound.left, bound.right)]
-    _need(qn[1] in bl, "the bound does not start from the UPPER quantile")
-    mult = bound.right if _u(bound.left) == qn[1] else bound.left
-    _need({_u(mult.left), _u(mult.right)} == {"outlier_threshold", ipr[0].targets[0].id}, "the bound is not upper + outlier_threshold * ipr")
-    breaks = []
-    for st in lb:
-        if isinstance(st, ast.If) and any(isinstance(x, ast.Break) for x in st.body):
-            # `if A: break` `if B: break`  ==  `if A or B: break` (same short-circuit order)
-            for t_ in (st.test.values if isinstance(st.test, ast.BoolOp) and isinstance(st.test.op, ast.Or) else [st.test]):
-                breaks.append("all" if _u(t_).startswith("np.all(") else ("min_anchors" if "min_anchors" in _u(t_) else _u(t_)))
-    ret = [st for st in f.body if isinstance(st, ast.Return)][-1].value
-    L += ["/-- `superimpose_without_outliers`: signature, first guard, loop, squared distance, mean over models, quantiles, bound, exits, result. -/",
-          f"def wooParams : List String := {SL(names)}",
-          f"def wooFirstGuard : List String := {SL([_u(g0.test), _raise_class(g0.body)])}",
-          f"def wooQuantilePrep : String := {S(_u(q[0].value))}",
-          f"def wooInitialMask : String := {S(_us(init[0].value, coord_src))}",
-          f"def wooLoop : String := {S(_u(loop[0].iter))}",
-          f"def wooInnerFit : List String := {SL(inner)}",
-          f"def wooSqDist : List String := {SL([_u(dcall.func)] + d_args + ['**' + _u(sq[0].value.right)])}",
-          f"def wooMeanOverModels : List String := {SL([_cmp_name(meanif[0].test.ops[0]), ast.literal_eval(meanif[0].test.comparators[0]), _u(mcall.func)] + [k.arg + '=' + _u(k.value) for k in mcall.keywords])}",
-          f"def wooQuantileCall : List String := {SL([_us(a, {sq[0].targets[0].id: 'SQ_DIST'}) for a in qcall[0].value.args] + [k.arg for k in qcall[0].value.keywords])}",
-          f"def wooIprIsSecondMinusFirst : Bool := {'true' if (_u(ipr[0].value.left), _u(ipr[0].value.right)) == (qn[1], qn[0]) else 'false'}",
-          f"def wooBreaks : List String := {SL(breaks)}",
-          f"def wooReturn : String := {S(_us(ret, {ret.elts[2].id: 'anchor_indices', fit_out[1]: 'transform'}) if isinstance(ret, ast.Tuple) and len(ret.elts) == 3 and isinstance(ret.elts[2], ast.Name) else _u(ret))}"]
+    def _g7():
+        L = []
+        # ---- superimpose_without_outliers: everything the loop model hard-codes
+        f = _find_func(tree, "superimpose_without_outliers")
+        names, dflt = _sig_defaults(f)
+        g0 = [st for st in f.body if isinstance(st, ast.If)][0]
+        q = [st for st in f.body if isinstance(st, ast.Assign) and _u(st.targets[0]) == "quantiles"]
+        init = [st for st in f.body if isinstance(st, ast.Assign) and _u(st.value).startswith("np.ones(")]
+        loop = [st for st in f.body if isinstance(st, ast.For)]
+        _need(len(loop) == 1 and len(init) == 1 and len(q) == 1, "outlier loop / initial mask / quantile sorting not found")
+        lb = loop[0].body
+        sq = [st for st in lb if isinstance(st, ast.Assign) and isinstance(st.value, ast.BinOp) and isinstance(st.value.op, ast.Pow)]
+        _need(len(sq) == 1 and isinstance(sq[0].value.left, ast.Call), "squared distance expression not found")
+        dcall = sq[0].value.left
+        sup_call = [st for st in lb if isinstance(st, ast.Assign) and isinstance(st.value, ast.Call) and _u(st.value.func) == "superimpose"]
+        _need(len(sup_call) == 1 and len(sup_call[0].value.args) == 2 and not sup_call[0].value.keywords, "inner superimpose(fixed_sel, mobile_sel) call")
+        sel = {}
+        for st in lb:
+            if isinstance(st, ast.Assign) and isinstance(st.value, ast.Subscript) and isinstance(st.value.slice, ast.Tuple) \
+                    and len(st.value.slice.elts) == 3 and _u(st.value.slice.elts[0]) == "...":
+                sel[st.targets[0].id] = _u(st.value.value)
+        coord_src = {st.targets[0].id: _u(st.value) for st in f.body if isinstance(st, ast.Assign) and _u(st.value).startswith("coord(")}
+        inner = [coord_src.get(sel.get(_u(a), ""), "?") for a in sup_call[0].value.args]
+        fit_out = [_u(e) for e in sup_call[0].targets[0].elts]
+        d_args = [(_u(a) == fit_out[0] and "superimposed") or coord_src.get(sel.get(_u(a), ""), "?") for a in dcall.args]
+        meanif = [st for st in lb if isinstance(st, ast.If) and "ndim" in _u(st.test)]
+        _need(len(meanif) == 1 and isinstance(meanif[0].test, ast.Compare), "mean over models not found")
+        mcall = meanif[0].body[0].value
+        qcall = [st for st in lb if isinstance(st, ast.Assign) and isinstance(st.value, ast.Call) and _u(st.value.func) == "np.quantile"]
+        _need(len(qcall) == 1 and isinstance(qcall[0].targets[0], ast.Tuple), "np.quantile call")
+        qn = [_u(e) for e in qcall[0].targets[0].elts]
+        ipr = [st for st in lb if isinstance(st, ast.Assign) and isinstance(st.value, ast.BinOp) and isinstance(st.value.op, ast.Sub)
+               and {_u(st.value.left), _u(st.value.right)} == set(qn)]
+        _need(len(ipr) == 1, "ipr = upper - lower not found")
+        bound = [st for st in lb if isinstance(st, ast.Assign) and isinstance(st.targets[0], ast.Subscript) and isinstance(st.value, ast.Compare)][0].value.comparators[0]
+        bl = [_u(x) for x in (bound.left, bound.right)]
+        _need(qn[1] in bl, "the bound does not start from the UPPER quantile")
+        mult = bound.right if _u(bound.left) == qn[1] else bound.left
+        _need({_u(mult.left), _u(mult.right)} == {"outlier_threshold", ipr[0].targets[0].id}, "the bound is not upper + outlier_threshold * ipr")
+        breaks = []
+        for st in lb:
+            if isinstance(st, ast.If) and any(isinstance(x, ast.Break) for x in st.body):
+                # `if A: break` `if B: break`  ==  `if A or B: break` (same short-circuit order)
+                for t_ in (st.test.values if isinstance(st.test, ast.BoolOp) and isinstance(st.test.op, ast.Or) else [st.test]):
+                    breaks.append("all" if _u(t_).startswith("np.all(") else ("min_anchors" if "min_anchors" in _u(t_) else _u(t_)))
+        ret = [st for st in f.body if isinstance(st, ast.Return)][-1].value
+        L += ["/-- `superimpose_without_outliers`: signature, first guard, loop, squared distance, mean over models, quantiles, bound, exits, result. -/",
+              f"def wooParams : List String := {SL(names)}",
+              f"def wooFirstGuard : List String := {SL([_u(g0.test), _raise_class(g0.body)])}",
+              f"def wooQuantilePrep : String := {S(_u(q[0].value))}",
+              f"def wooInitialMask : String := {S(_us(init[0].value, coord_src))}",
+              f"def wooLoop : String := {S(_u(loop[0].iter))}",
+              f"def wooInnerFit : List String := {SL(inner)}",
+              f"def wooSqDist : List String := {SL([_u(dcall.func)] + d_args + ['**' + _u(sq[0].value.right)])}",
+              f"def wooMeanOverModels : List String := {SL([_cmp_name(meanif[0].test.ops[0]), ast.literal_eval(meanif[0].test.comparators[0]), _u(mcall.func)] + [k.arg + '=' + _u(k.value) for k in mcall.keywords])}",
+              f"def wooQuantileCall : List String := {SL([_us(a, {sq[0].targets[0].id: 'SQ_DIST'}) for a in qcall[0].value.args] + [k.arg for k in qcall[0].value.keywords])}",
+              f"def wooIprIsSecondMinusFirst : Bool := {'true' if (_u(ipr[0].value.left), _u(ipr[0].value.right)) == (qn[1], qn[0]) else 'false'}",
+              f"def wooBreaks : List String := {SL(breaks)}",
+              f"def wooReturn : String := {S(_us(ret, {ret.elts[2].id: 'anchor_indices', fit_out[1]: 'transform'}) if isinstance(ret, ast.Tuple) and len(ret.elts) == 3 and isinstance(ret.elts[2], ast.Name) else _u(ret))}"]
+        return L
+    L += _safe_group(_g7, [('wooParams', 'List String'), ('wooFirstGuard', 'List String'), ('wooQuantilePrep', 'String'), ('wooInitialMask', 'String'), ('wooLoop', 'String'), ('wooInnerFit', 'List String'), ('wooSqDist', 'List String'), ('wooMeanOverModels', 'List String'), ('wooQuantileCall', 'List String'), ('wooIprIsSecondMinusFirst', 'Bool'), ('wooBreaks', 'List String'), ('wooReturn', 'String')], 'superimpose_without_outliers', errors)
 
-    # ---- superimpose_homologs and its helpers
-    f = _find_func(tree, "superimpose_homologs")
-    names, dflt = _sig_defaults(f)
-    guards = []
-    for st in ast.walk(f):
-        if isinstance(st, ast.If) and _raise_class(st.body):
-            t = st.test
-            if isinstance(t, ast.BoolOp):
-                guards.append(type(t.op).__name__ + ":" + ",".join(_cmp_name(x.ops[0]) + ":" + _u(x.comparators[0]) for x in t.values) + ":" + _raise_class(st.body))
-            else:
-                guards.append(_cmp_name(t.ops[0]) + ":" + _u(t.comparators[0]) + ":" + _raise_class(st.body))
-    env = {}
-    for st in f.body:
-        if isinstance(st, ast.Assign) and isinstance(st.value, ast.Call) and isinstance(st.targets[0], ast.Name):
-            fn = _u(st.value.func)
-            if fn == H["backbone"]:
-                env[st.targets[0].id] = f"BACKBONE_{_u(st.value.args[0])}"
-            elif fn == H["matching"]:
-                env[st.targets[0].id] = "MATCHED"
-    _need(sorted(env.values()) == ["BACKBONE_fixed", "BACKBONE_mobile", "MATCHED"], "backbone indices / matched anchors assignments")
-    guards = []
-    for st in ast.walk(f):
-        if isinstance(st, ast.If) and _raise_class(st.body):
-            t = st.test
-            parts = t.values if isinstance(t, ast.BoolOp) else [t]
-            guards.append((type(t.op).__name__ + ":" if isinstance(t, ast.BoolOp) else "") +
-                          ",".join(_us(x.left, env) + " " + _cmp_name(x.ops[0]) + " " + _us(x.comparators[0], env) for x in parts)
-                          + ":" + _raise_class(st.body))
-    fb = [st for st in f.body if isinstance(st, ast.If) and not _raise_class(st.body)]
-    _need(len(fb) == 1 and isinstance(fb[0].test, ast.Compare), "fallback test not found")
-    cols = {}
-    for st in fb[0].orelse:
-        if isinstance(st, ast.Assign):
-            cols[_us(st.value.value, env)] = _us(st.value.slice, env)
-    wc = [n for n in ast.walk(f) if isinstance(n, ast.Call) and _u(n.func) == "superimpose_without_outliers"]
-    _need(len(wc) == 1, "call of superimpose_without_outliers")
-    L += ["/-- `superimpose_homologs`: signature + defaults, raising guards in order, fallback test, alignment columns, forwarded arguments. -/",
-          f"def homParams : List String := {SL(names + (['**' + f.args.kwarg.arg] if f.args.kwarg else []))}",
-          f"def homDefaults : List (String × String) := [" + ", ".join(f"({S(k)}, {S(v)})" for k, v in dflt.items()) + "]",
-          f"def homGuards : List String := {SL(guards)}",
-          f"def homFallbackTest : List String := {SL([_us(fb[0].test.left, env), _cmp_name(fb[0].test.ops[0]), _us(fb[0].test.comparators[0], env)])}",
-          f"def homColumns : List (String × String) := [" + ", ".join(f"({S(k)}, {S(v)})" for k, v in sorted(cols.items())) + "]",
-          f"def homWooArgs : List String := {SL([_u(a) for a in wc[0].args[2:]] + [('**' if k.arg is None else k.arg + '=') + _u(k.value) for k in wc[0].keywords])}"]
-    f = _find_func(tree, H["backbone"])
-    strs = [n.value for n in ast.walk(f) if isinstance(n, ast.Constant) and isinstance(n.value, str) and len(n.value) < 4]
-    fl = [_u(n.func) for n in ast.walk(f) if isinstance(n, ast.Call) and _u(n.func).startswith("filter_")]
-    L += [f"def backboneAtoms : List String := {SL(sorted(zip(fl, strs)) and [a + ':' + b for a, b in sorted(zip(fl, strs))])}"]
-    f = _find_func(tree, H["matching"])
-    loop = [st for st in f.body if isinstance(st, ast.For)][0]
-    _need(_u(loop.iter.func) == "zip" and isinstance(loop.target, ast.Tuple) and len(loop.target.elts) == 2, "chain loop is not `for a, b in zip(...)`")
-    zip_kw = [k.arg + "=" + _u(k.value) for k in loop.iter.keywords]
-    zpos = {e.id: i for i, e in enumerate(loop.target.elts)}
-    seq_of = {}
-    for st in loop.body:
-        if isinstance(st, ast.Assign) and "to_sequence(" in _u(st.value):
-            arg = [n for n in ast.walk(st.value) if isinstance(n, ast.Call) and _u(n.func) == "to_sequence"][0].args[0]
-            seq_of[st.targets[0].id] = zpos[_u(arg)]
-    add = [st for st in loop.body if isinstance(st, ast.AugAssign) and isinstance(st.value, ast.Tuple)]
-    _need(len(add) == 1 and isinstance(add[0].op, ast.Add) and len(add[0].value.elts) == 2, "`anchors += off_a, off_b` not found")
-    col_of = {_u(e): i for i, e in enumerate(add[0].value.elts)}
-    incs = []
-    for st in loop.body:
-        if isinstance(st, ast.AugAssign) and _u(st.target) in col_of:
-            _need(isinstance(st.op, ast.Add) and isinstance(st.value, ast.Call) and _u(st.value.func) == "len", "offset increment is not += len(seq)")
-            incs.append(f"{col_of[_u(st.target)]}<-{seq_of[_u(st.value.args[0])]}")
-    inits = {st.targets[0].id: ast.literal_eval(st.value) for st in f.body if isinstance(st, ast.Assign) and _u(st.targets[0]) in col_of}
-    score = [n for n in ast.walk(loop) if isinstance(n, ast.Compare) and "score_matrix[" in _u(n.left)]
-    _need(len(score) == 1, "positive-score filter not found")
-    al = [n for n in ast.walk(loop) if isinstance(n, ast.Call) and _u(n.func) == "align_optimal"][0]
-    L += ["/-- `_find_matching_anchors`: column c of the anchors is offset by a counter advanced by the length of the sequence",
-          "    of zip position p (`c<-p`), counters start at 0, zip is strict, only positively scoring columns, one alignment. -/",
-          f"def anchorOffsetIncrements : List String := {SL(sorted(incs))}",
-          f"def anchorOffsetStart : List Int := {IL(inits[k] for k in sorted(inits))}",
-          f"def chainZip : List String := {SL(zip_kw)}",
-          f"def scoreFilter : List String := {SL([_cmp_name(score[0].ops[0]), _u(score[0].comparators[0])])}",
-          f"def alignKeywords : List String := {SL(sorted(k.arg + '=' + _u(k.value) for k in al.keywords))}",
-          f"def alignArgs : List String := {SL([str(seq_of.get(_u(a), _u(a))) for a in al.args])}"]
+    def _g8():
+        L = []
+        # ---- superimpose_homologs and its helpers
+        f = _find_func(tree, "superimpose_homologs")
+        names, dflt = _sig_defaults(f)
+        guards = []
+        for st in ast.walk(f):
+            if isinstance(st, ast.If) and _raise_class(st.body):
+                t = st.test
+                if isinstance(t, ast.BoolOp):
+                    guards.append(type(t.op).__name__ + ":" + ",".join(_cmp_name(x.ops[0]) + ":" + _u(x.comparators[0]) for x in t.values) + ":" + _raise_class(st.body))
+                else:
+                    guards.append(_cmp_name(t.ops[0]) + ":" + _u(t.comparators[0]) + ":" + _raise_class(st.body))
+        env = {}
+        for st in f.body:
+            if isinstance(st, ast.Assign) and isinstance(st.value, ast.Call) and isinstance(st.targets[0], ast.Name):
+                fn = _u(st.value.func)
+                if fn == H["backbone"]:
+                    env[st.targets[0].id] = f"BACKBONE_{_u(st.value.args[0])}"
+                elif fn == H["matching"]:
+                    env[st.targets[0].id] = "MATCHED"
+        _need(sorted(env.values()) == ["BACKBONE_fixed", "BACKBONE_mobile", "MATCHED"], "backbone indices / matched anchors assignments")
+        guards = []
+        for st in ast.walk(f):
+            if isinstance(st, ast.If) and _raise_class(st.body):
+                t = st.test
+                parts = t.values if isinstance(t, ast.BoolOp) else [t]
+                guards.append((type(t.op).__name__ + ":" if isinstance(t, ast.BoolOp) else "") +
+                              ",".join(_us(x.left, env) + " " + _cmp_name(x.ops[0]) + " " + _us(x.comparators[0], env) for x in parts)
+                              + ":" + _raise_class(st.body))
+        fb = [st for st in f.body if isinstance(st, ast.If) and not _raise_class(st.body)]
+        _need(len(fb) == 1 and isinstance(fb[0].test, ast.Compare), "fallback test not found")
+        cols = {}
+        for st in fb[0].orelse:
+            if isinstance(st, ast.Assign):
+                cols[_us(st.value.value, env)] = _us(st.value.slice, env)
+        wc = [n for n in ast.walk(f) if isinstance(n, ast.Call) and _u(n.func) == "superimpose_without_outliers"]
+        _need(len(wc) == 1, "call of superimpose_without_outliers")
+        L += ["/-- `superimpose_homologs`: signature + defaults, raising guards in order, fallback test, alignment columns, forwarded arguments. -/",
+              f"def homParams : List String := {SL(names + (['**' + f.args.kwarg.arg] if f.args.kwarg else []))}",
+              f"def homDefaults : List (String × String) := [" + ", ".join(f"({S(k)}, {S(v)})" for k, v in dflt.items()) + "]",
+              f"def homGuards : List String := {SL(guards)}",
+              f"def homFallbackTest : List String := {SL([_us(fb[0].test.left, env), _cmp_name(fb[0].test.ops[0]), _us(fb[0].test.comparators[0], env)])}",
+              f"def homColumns : List (String × String) := [" + ", ".join(f"({S(k)}, {S(v)})" for k, v in sorted(cols.items())) + "]",
+              f"def homWooArgs : List String := {SL([_u(a) for a in wc[0].args[2:]] + [('**' if k.arg is None else k.arg + '=') + _u(k.value) for k in wc[0].keywords])}"]
+        f = _find_func(tree, H["backbone"])
+        strs = [n.value for n in ast.walk(f) if isinstance(n, ast.Constant) and isinstance(n.value, str) and len(n.value) < 4]
+        fl = [_u(n.func) for n in ast.walk(f) if isinstance(n, ast.Call) and _u(n.func).startswith("filter_")]
+        L += [f"def backboneAtoms : List String := {SL(sorted(zip(fl, strs)) and [a + ':' + b for a, b in sorted(zip(fl, strs))])}"]
+        f = _find_func(tree, H["matching"])
+        loop = [st for st in f.body if isinstance(st, ast.For)][0]
+        _need(_u(loop.iter.func) == "zip" and isinstance(loop.target, ast.Tuple) and len(loop.target.elts) == 2, "chain loop is not `for a, b in zip(...)`")
+        zip_kw = [k.arg + "=" + _u(k.value) for k in loop.iter.keywords]
+        zpos = {e.id: i for i, e in enumerate(loop.target.elts)}
+        seq_of = {}
+        for st in loop.body:
+            if isinstance(st, ast.Assign) and "to_sequence(" in _u(st.value):
+                arg = [n for n in ast.walk(st.value) if isinstance(n, ast.Call) and _u(n.func) == "to_sequence"][0].args[0]
+                seq_of[st.targets[0].id] = zpos[_u(arg)]
+        add = [st for st in loop.body if isinstance(st, ast.AugAssign) and isinstance(st.value, ast.Tuple)]
+        _need(len(add) == 1 and isinstance(add[0].op, ast.Add) and len(add[0].value.elts) == 2, "`anchors += off_a, off_b` not found")
+        col_of = {_u(e): i for i, e in enumerate(add[0].value.elts)}
+        incs = []
+        for st in loop.body:
+            if isinstance(st, ast.AugAssign) and _u(st.target) in col_of:
+                _need(isinstance(st.op, ast.Add) and isinstance(st.value, ast.Call) and _u(st.value.func) == "len", "offset increment is not += len(seq)")
+                incs.append(f"{col_of[_u(st.target)]}<-{seq_of[_u(st.value.args[0])]}")
+        inits = {st.targets[0].id: ast.literal_eval(st.value) for st in f.body if isinstance(st, ast.Assign) and _u(st.targets[0]) in col_of}
+        score = [n.slice for n in ast.walk(loop) if isinstance(n, ast.Subscript) and isinstance(n.value, ast.Attribute)
+             and n.value.attr == "trace" and isinstance(n.slice, ast.Compare) and isinstance(n.slice.left, ast.Subscript)]
+        _need(len(score) == 1, "positive-score filter not found")
+        al = [n for n in ast.walk(loop) if isinstance(n, ast.Call) and _u(n.func) == "align_optimal"][0]
+        L += ["/-- `_find_matching_anchors`: column c of the anchors is offset by a counter advanced by the length of the sequence",
+              "    of zip position p (`c<-p`), counters start at 0, zip is strict, only positively scoring columns, one alignment. -/",
+              f"def anchorOffsetIncrements : List String := {SL(sorted(incs))}",
+              f"def anchorOffsetStart : List Int := {IL(inits[k] for k in sorted(inits))}",
+              f"def chainZip : List String := {SL(zip_kw)}",
+              f"def scoreFilter : List String := {SL([_cmp_name(score[0].ops[0]), _u(score[0].comparators[0])])}",
+              f"def alignKeywords : List String := {SL(sorted(k.arg + '=' + _u(k.value) for k in al.keywords))}",
+              f"def alignArgs : List String := {SL([str(seq_of.get(_u(a), _u(a))) for a in al.args])}"]
+        return L
+    L += _safe_group(_g8, [('homParams', 'List String'), ('homDefaults', 'List (String × String)'), ('homGuards', 'List String'), ('homFallbackTest', 'List String'), ('homColumns', 'List (String × String)'), ('homWooArgs', 'List String'), ('backboneAtoms', 'List String'), ('anchorOffsetIncrements', 'List String'), ('anchorOffsetStart', 'List Int'), ('chainZip', 'List String'), ('scoreFilter', 'List String'), ('alignKeywords', 'List String'), ('alignArgs', 'List String')], 'superimpose_homologs and its helpers', errors)
 
-    # ---- compare.rmsd / _sq_euclidian, geometry.centroid
-    f = _find_func(cmp_tree, "rmsd")
-    r = [st for st in f.body if isinstance(st, ast.Return)][0].value
-    g = _find_func(cmp_tree, H["sqeuclid"])
-    gg = [st for st in g.body if isinstance(st, ast.If)][0]
-    dif = [st for st in g.body if isinstance(st, ast.Assign) and isinstance(st.value, ast.BinOp) and isinstance(st.value.op, ast.Sub)][0]
-    h = _find_func(geo_tree, "centroid")
-    hr = [st for st in h.body if isinstance(st, ast.Return)][0].value
-    cenv = {st.targets[0].id: _u(st.value) for st in g.body if isinstance(st, ast.Assign) and _u(st.value).startswith("coord(")}
-    L += ["/-- `rmsd`, `_sq_euclidian` (compare.py) and `centroid` (geometry.py). -/",
-          f"def rmsdExpr : String := {S(_u(r).replace(H['sqeuclid'] + '(', 'SQ_EUCLID('))}",
-          f"def sqEuclidGuard : List String := {SL([_us(gg.test, cenv), _raise_class(gg.body)])}",
-          f"def sqEuclidDiff : String := {S(_us(dif.value, cenv))}",
-          f"def centroidExpr : String := {S(_u(hr))}"]
+    def _g9():
+        L = []
+        # ---- compare.rmsd / _sq_euclidian, geometry.centroid
+        f = _find_func(cmp_tree, "rmsd")
+        r = [st for st in f.body if isinstance(st, ast.Return)][0].value
+        g = _find_func(cmp_tree, H["sqeuclid"])
+        gg = [st for st in g.body if isinstance(st, ast.If)][0]
+        dif = [st for st in g.body if isinstance(st, ast.Assign) and isinstance(st.value, ast.BinOp) and isinstance(st.value.op, ast.Sub)][0]
+        h = _find_func(geo_tree, "centroid")
+        hr = [st for st in h.body if isinstance(st, ast.Return)][0].value
+        cenv = {st.targets[0].id: _u(st.value) for st in g.body if isinstance(st, ast.Assign) and _u(st.value).startswith("coord(")}
+        L += ["/-- `rmsd`, `_sq_euclidian` (compare.py) and `centroid` (geometry.py). -/",
+              f"def rmsdExpr : String := {S(_u(r).replace(H['sqeuclid'] + '(', 'SQ_EUCLID('))}",
+              f"def sqEuclidGuard : List String := {SL([_us(gg.test, cenv), _raise_class(gg.body)])}",
+              f"def sqEuclidDiff : String := {S(_us(dif.value, cenv))}",
+              f"def centroidExpr : String := {S(_u(hr))}"]
+        return L
+    L += _safe_group(_g9, [('rmsdExpr', 'String'), ('sqEuclidGuard', 'List String'), ('sqEuclidDiff', 'String'), ('centroidExpr', 'String')], 'compare.rmsd / _sq_euclidian, geometry.centroid', errors)
+
     return L
 
 
@@ -1133,8 +1235,8 @@ def run_impl(case):
                 def backbone(atoms):
                     calls.append(1)
                     return (FI if len(calls) == 1 else MI).copy()
-                with _patched(**{"superimpose": _identity_sup, _helpers()["backbone"]: backbone,
-                                 _helpers()["matching"]: (lambda *a, **k: A.copy())}):
+                with _patched(**{"superimpose": _identity_sup, _hname("backbone"): backbone,
+                                 _hname("matching"): (lambda *a, **k: A.copy())}):
                     _, _, fi, mi = S.superimpose_homologs(
                         F, M, min_anchors=int(w[12]), max_iterations=int(w[13]),
                         quantiles=(float(Fraction(w[14])), float(Fraction(w[15]))), outlier_threshold=float(Fraction(w[16])))
@@ -2388,14 +2490,10 @@ def _oracle_homc(case):
         nF, nM = back(F), back(M)
         if nF < minA or nM < minA:
             return []
-        try:
-            FI, MI = _hp("backbone")(F), _hp("backbone")(M)
-            nA = len(_hp("matching")(F[..., FI], M[..., MI], kw.get("substitution_matrix"), kw.get("gap_penalty", -10),
-                                               kw.get("terminal_penalty", False)))
-        except Exception:  # noqa: BLE001
-            nA = None
-        if nA is not None and nA < minA and nF != nM:
-            return []
+        isb = np.isin(F.atom_name, ["CA", "P"]), np.isin(M.atom_name, ["CA", "P"])
+        nA = _count_matched_anchors(F[..., isb[0]], M[..., isb[1]], kw, case.get("nuc"))
+        if nA is None or (nA < minA and nF != nM):
+            return []          # documented refusal (or not determinable independently: not judged)
         return [("C16/homologs/valid-input-refused", f"ValueError: {e} ({nF}/{nM} backbone atoms, {nA} matched anchors, min_anchors={minA})")]
     except Exception as e:  # noqa: BLE001
         return [("C16/homologs/unexpected-exception", f"{type(e).__name__}: {e} ({case.get('n_chains')} chains)")]
@@ -2630,6 +2728,34 @@ def _oracle_rigidapi(case):
     return v
 
 
+def _count_matched_anchors(Fb, Mb, kw, nuc):
+    """Independent recount (public API only, no private helper of the code under test) of the anchors the sequence
+    alignment yields for two backbone-only structures: gap-free columns with a positive substitution score, chain by
+    chain.  Returns None when it cannot be determined (then the oracle does not judge the refusal)."""
+    try:
+        import numpy as np
+        import biotite.structure as struc
+        from biotite.sequence.align import SubstitutionMatrix, align_optimal
+        from biotite.sequence.alphabet import common_alphabet
+        from biotite.sequence.seqtypes import ProteinSequence
+        matrix = kw.get("substitution_matrix")
+        total = 0
+        for fc, mc in zip(struc.chain_iter(Fb), struc.chain_iter(Mb)):
+            fs = struc.to_sequence(fc, allow_hetero=True)[0][0]
+            ms = struc.to_sequence(mc, allow_hetero=True)[0][0]
+            if matrix is None:
+                matrix = SubstitutionMatrix.std_protein_matrix() if isinstance(fs, ProteinSequence) else SubstitutionMatrix.std_nucleotide_matrix()
+            elif isinstance(matrix, str):
+                alph = common_alphabet([fs.alphabet, ms.alphabet])
+                matrix = SubstitutionMatrix(alph, alph, matrix)
+            ali = align_optimal(fs, ms, matrix, kw.get("gap_penalty", -10), terminal_penalty=kw.get("terminal_penalty", False), max_number=1)[0]
+            tr = ali.trace[(ali.trace != -1).all(axis=1)]
+            total += int((matrix.score_matrix()[fs.code[tr[:, 0]], ms.code[tr[:, 1]]] > 0).sum())
+        return total
+    except Exception:  # noqa: BLE001
+        return None
+
+
 def _oracle_homamb(case):
     """Ambiguous homolog input: the anchor pairing is the sequence method's business, but the reported fit must be the
     optimal fit of the reported anchor pairs, reproduce `apply`, and refusals are only the documented ones."""
@@ -2651,12 +2777,9 @@ def _oracle_homamb(case):
             return [("C16/homologs/refused-call-modified-arguments", str(e))]
         if len(fch) != len(mch) or nF < minA or nM < minA:
             return []
-        try:
-            nA = len(_hp("matching")(F, M, None, kw.get("gap_penalty", -10), kw.get("terminal_penalty", False)))
-        except Exception:  # noqa: BLE001
-            nA = None
-        if nA is not None and nA < minA and nF != nM:
-            return []
+        nA = _count_matched_anchors(F, M, kw, case.get("nuc"))
+        if nA is None or (nA < minA and nF != nM):
+            return []          # documented refusal (or not determinable independently: not judged)
         return [("C16/homologs/valid-input-refused", f"ValueError: {e} ({nF}/{nM} backbone atoms, {nA} matched, min_anchors={minA})")]
     except Exception as e:  # noqa: BLE001
         return [("C16/homologs/unexpected-exception", f"{type(e).__name__}: {e} ({case.get('n_chains')} chains, {nF}/{nM} atoms)")]
